@@ -1,4 +1,5 @@
 import TruthModel.Model.Fmt
+import TruthModel.Model.FmtExpr
 /-
 C08 — printed scripts parse back to the same script: the literal layer.
 
@@ -22,9 +23,22 @@ Proved here, for ALL inputs of the model (`Model/Fmt.lean`):
   inline-vs-block decision (`try_inline`, `backtrack_inline_if_long`) only changes whitespace and
   the trailing comma.
 
-Not proved (searched on the implementation by the harness): the expression / statement grammar,
-float literals (`showF32`/`readF32` are Rust's `Display`/`FromStr`).
-The full property is kept as `printed_scripts_parse_back_full`.
+* the EXPRESSION layer (`Model/FmtExpr.lean`): `expr_print_parse` — for every expression `e` with
+  `NoGlue e`, the recursive-descent model of the grammar's `Expr` rules accepts the tokens that the
+  model of `impl Format for ast::Expr` writes and returns `norm e` (same operators with the same
+  grouping, calls, arguments, switch cases and holes, variables, literals; `norm` = the documented
+  loss: radix hints, `true`/`false`/`INF`/`NAN` as names, a sign in front of a number as the
+  operator); `expr_print_parse_sup` where `SuppressParens` is in effect; `expr_print_parse_text`
+  on text under `LexOK`; `expr_print_idempotent` / `expr_print_parse_print` (printing what was
+  parsed gives the same tokens, on sign-free hint-free literals); `expr_layout_tokens`,
+  `expr_layout_width_independent`, `expr_layout_printExpr` (argument lists laid out inline or in
+  block style at any width carry exactly the tokens of `printExpr`); `glue_sites_fail` and
+  `negative_literal_gains_parens` (the property is false exactly at the excluded shapes).
+
+Not proved (searched on the implementation by the harness): the statement / item / meta grammar,
+float literals (`showF32`/`readF32` are Rust's `Display`/`FromStr`), and that the joined text of an
+expression lexes to the written tokens (`LexOK`, compared with the real lexer on every generated
+expression).  The full property is kept as `printed_scripts_parse_back_full`.
 -/
 namespace TruthModel.C08
 open TruthModel TruthModel.Fmt
@@ -834,7 +848,1610 @@ theorem layout_width_independent (w w' : Nat) (d : Doc) : ess (renderPieces w d)
 example : render 6 (.list ['['] [']'] (.cons (.atom ['1', '0']) (.cons (.atom ['2', '3']) .nil))) = "[\n    10,\n    23,\n]".toList := by decide
 example : render 9 (.list ['['] [']'] (.cons (.atom ['1', '0']) (.cons (.atom ['2', '3']) .nil))) = "[10, 23]".toList := by decide
 
-/-! ## the full property (not proved: the expression and statement grammar and floats are searched) -/
+/-! # the expression layer -/
+
+open TruthModel.FmtExpr
+local notation "cl" => List.map classify
+
+
+/-! ## classification of the tokens the printer writes -/
+
+@[simp] theorem cl_lp : classify tLp = .lp := by decide
+@[simp] theorem cl_rp : classify tRp = .rp := by decide
+@[simp] theorem cl_comma : classify tComma = .comma := by decide
+@[simp] theorem cl_quest : classify tQuest = .quest := by decide
+@[simp] theorem cl_colon : classify tColon = .colon := by decide
+@[simp] theorem cl_lb : classify tLb = .lb := by decide
+@[simp] theorem cl_rb : classify tRb = .rb := by decide
+@[simp] theorem cl_dot : classify tDot = .dot := by decide
+@[simp] theorem cl_at : classify tAt = .at := by decide
+@[simp] theorem cl_assign : classify tAssign = .assign := by decide
+@[simp] theorem cl_minus : classify tMinus = .op .sub := by decide
+@[simp] theorem cl_dollar : classify tDollar = .dollar := by decide
+@[simp] theorem cl_percent : classify tPercent = .op .rem := by decide
+@[simp] theorem cl_reg : classify tReg = .reg := by decide
+@[simp] theorem cl_xcr (inc : Bool) : classify (xcrTok inc) = if inc then .inc else .dec := by
+  cases inc <;> decide
+@[simp] theorem cl_binop (op : BinOp) : classify op.tok = .op op := by cases op <;> decide
+@[simp] theorem cl_labelKw (k : LabelKw) : classify (.word k.text) = .labelKw k := by cases k <;> decide
+@[simp] theorem cl_pseudo (k : PseudoKind) : classify (.word k.text) = .ident k.text := by cases k <;> decide
+@[simp] theorem pseudoKindOf_text (k : PseudoKind) : pseudoKindOf k.text = some k := by cases k <;> decide
+@[simp] theorem cl_true : classify (.word trueText) = .ident trueText := by decide
+@[simp] theorem cl_false : classify (.word falseText) = .ident falseText := by decide
+@[simp] theorem cl_inf : classify (.word infText) = .ident infText := by decide
+@[simp] theorem cl_nan : classify (.word nanText) = .ident nanText := by decide
+@[simp] theorem cl_int (s : List Char) : classify (.int s) = .int s := rfl
+@[simp] theorem cl_float (s : List Char) : classify (.float s) = .float s := rfl
+@[simp] theorem cl_str (s : List Char) : classify (.str s) = .str s := rfl
+
+theorem cl_ident {w : List Char} (h : identOK w = true) : classify (.word w) = .ident w := by
+  simpa [identOK, classify] using h
+
+theorem cl_unop_prefix : classify (UnOp.tok .neg) = .op .sub ∧ classify (UnOp.tok .not) = .bang ∧
+    classify (UnOp.tok .bitNot) = .tilde := by decide
+
+/-- the three ways a function-like operator is classified -/
+theorem cl_unop_func (u : UnOp) (h : u.isPrefix = false) :
+    (classify u.tok = .func u) ∨ (u = .encI ∧ classify u.tok = .dollar) ∨ (u = .encF ∧ classify u.tok = .op .rem) := by
+  cases u <;> first | (exact absurd h (by decide)) | (left; decide) | (right; left; exact ⟨rfl, by decide⟩) | (right; right; exact ⟨rfl, by decide⟩)
+
+theorem cl_ins (ds : List Char) : classify (.word (insPrefix ++ ds)) = .ins ds := by
+  simp [classify, wordClass, insPrefix]
+
+
+/-! ## stop sets: what may follow a term / an expression -/
+
+/-- a token after which a `Var` / identifier term is complete -/
+def stopsTerm : Option PTok → Bool
+  | some .lp | some .dot | some .inc | some .dec | some .lb => false
+  | _ => true
+
+/-- a token (or the end of input) that closes an `Expr` -/
+def closes : Option PTok → Bool
+  | none | some .rp | some .comma | some .rb | some .semi => true
+  | _ => false
+
+theorem stopsTerm_spec {o : Option PTok} (h : stopsTerm o = true) :
+    o ≠ some .lp ∧ o ≠ some .dot ∧ o ≠ some .inc ∧ o ≠ some .dec ∧ o ≠ some .lb := by
+  refine ⟨?_, ?_, ?_, ?_, ?_⟩ <;> (intro he; subst he; simp [stopsTerm] at h)
+
+theorem closes_spec {o : Option PTok} (h : closes o = true) :
+    stopsTerm o = true ∧ binOpOf o = none ∧ o ≠ some .quest ∧ o ≠ some .colon ∧ startsExpr o = false := by
+  cases o with
+  | none => simp [stopsTerm, binOpOf, startsExpr]
+  | some t => cases t <;> simp_all [closes, stopsTerm, binOpOf, startsExpr]
+
+theorem stopsTerm_op (b : BinOp) : stopsTerm (some (.op b)) = true := rfl
+
+/-! ## the tower -/
+
+theorem pLoop_stop (f lvl : Nat) (a : Expr) (toks : List PTok)
+    (h : ∀ op, binOpOf toks.head? = some op → op.level ≠ lvl) : pLoop (f + 1) lvl a toks = some (a, toks) := by
+  simp only [pLoop]
+  split
+  · rename_i op hop
+    simp [h op hop]
+  · rfl
+
+/-- a term that `pUnary` reads is read by every tier whose operators do not follow it -/
+theorem pLevel_of_unary {toks rest : List PTok} {x : Expr} {g : Nat}
+    (hU : ∀ f, g ≤ f → pUnary f (toks ++ rest) = some (x, rest)) :
+    ∀ (d k : Nat), k + d = 10 → (∀ op, binOpOf rest.head? = some op → op.level < k) →
+      ∀ f, g + d + 1 ≤ f → pLevel f k (toks ++ rest) = some (x, rest) := by
+  intro d
+  induction d with
+  | zero =>
+    intro k hk _ f hf
+    obtain ⟨f', rfl⟩ : ∃ f', f = f' + 1 := ⟨f - 1, by omega⟩
+    have h10 : 10 ≤ k := by omega
+    simp only [pLevel, h10, if_true]
+    exact hU f' (by omega)
+  | succ d ih =>
+    intro k hk hstop f hf
+    obtain ⟨f', rfl⟩ : ∃ f', f = f' + 1 := ⟨f - 1, by omega⟩
+    have h10 : ¬ 10 ≤ k := by omega
+    simp only [pLevel, h10, if_false]
+    rw [ih (k + 1) (by omega) (fun op hop => by have := hstop op hop; omega) f' (by omega)]
+    obtain ⟨f'', rfl⟩ : ∃ f'', f' = f'' + 1 := ⟨f' - 1, by omega⟩
+    exact pLoop_stop f'' k x rest (fun op hop => by have := hstop op hop; omega)
+
+/-- a result of tier `k0` is the result of every looser tier when no operator follows -/
+theorem pLevel_lift {toks rest : List PTok} {x : Expr} {k0 G : Nat} (hk0 : k0 ≤ 10) (hG : 1 ≤ G)
+    (h0 : ∀ f, G ≤ f → pLevel f k0 toks = some (x, rest)) (hstop : binOpOf rest.head? = none) :
+    ∀ (d k : Nat), k + d = k0 → ∀ f, G + d ≤ f → pLevel f k toks = some (x, rest) := by
+  intro d
+  induction d with
+  | zero =>
+    intro k hk f hf
+    have : k = k0 := by omega
+    subst this
+    exact h0 f (by omega)
+  | succ d ih =>
+    intro k hk f hf
+    obtain ⟨f', rfl⟩ : ∃ f', f = f' + 1 := ⟨f - 1, by omega⟩
+    have h10 : ¬ 10 ≤ k := by omega
+    simp only [pLevel, h10, if_false]
+    rw [ih (k + 1) (by omega) f' (by omega)]
+    obtain ⟨f'', rfl⟩ : ∃ f'', f' = f'' + 1 := ⟨f' - 1, by omega⟩
+    exact pLoop_stop f'' k x rest (fun op hop => by rw [hstop] at hop; cases hop)
+
+theorem pExpr_of_level {toks rest : List PTok} {x : Expr} {f : Nat} (h : pLevel f 0 toks = some (x, rest))
+    (hq : rest.head? ≠ some .quest) (hc : rest.head? ≠ some .colon) : pExpr (f + 1) toks = some (x, rest) := by
+  simp [pExpr, h, hq, hc]
+
+theorem pTernRhs_of_level {toks rest : List PTok} {x : Expr} {f : Nat} (h : pLevel f 0 toks = some (x, rest))
+    (hq : rest.head? ≠ some .quest) : pTernRhs (f + 1) toks = some (x, rest) := by
+  simp [pTernRhs, h, hq]
+
+
+/-! ## numbers -/
+
+/-- text of a number without sign that reads back as `v` -/
+def PlainNum (s : List Char) (v : Int32) : Prop :=
+  s.head? ≠ some '-' ∧ s ≠ trueText ∧ s ≠ falseText ∧ litIntUnsigned s = some v
+
+/-- text of a number with a sign whose magnitude reads back as `-v` -/
+def NegNum (s : List Char) (v : Int32) : Prop := ∃ r, s = '-' :: r ∧ litIntUnsigned r = some (-v)
+
+theorem numToks_neg {s : List Char} {v : Int32} (h : NegNum s v) :
+    ∃ r, numToks s = [tMinus, .int r] ∧ litIntUnsigned r = some (-v) := by
+  obtain ⟨r, rfl, hr⟩ := h
+  exact ⟨r, rfl, hr⟩
+
+theorem numToks_plain {s : List Char} {v : Int32} (h : PlainNum s v) : numToks s = [.int s] := by
+  obtain ⟨h1, h2, h3, _⟩ := h
+  unfold numToks
+  split
+  · simp at h1
+  · simp [h2, h3]
+
+theorem plain_dec (n : Nat) (hn : n < 4294967296) : PlainNum (natDigits 10 n) (UInt32.ofNat n).toInt32 := by
+  have hd := natDigits10_isDigit n
+  refine ⟨natDigits_head_ne_minus (by omega) (by omega) n, ?_, ?_, litIntUnsigned_dec n hn⟩
+  · intro h
+    have := hd 't' (by rw [h]; simp [trueText])
+    revert this; decide
+  · intro h
+    have := hd 'f' (by rw [h]; simp [falseText])
+    revert this; decide
+
+theorem plain_hex (n : Nat) (hn : n < 4294967296) : PlainNum ('0' :: 'x' :: natDigits 16 n) (UInt32.ofNat n).toInt32 :=
+  ⟨by simp, by simp [trueText], by simp [falseText], litIntUnsigned_hex n hn⟩
+
+theorem plain_bin (n : Nat) (hn : n < 4294967296) : PlainNum ('0' :: 'b' :: natDigits 2 n) (UInt32.ofNat n).toInt32 :=
+  ⟨by simp, by simp [trueText], by simp [falseText], litIntUnsigned_bin n hn⟩
+
+theorem shape_printI32 (v : Int32) :
+    (v.toInt < 0 ∧ NegNum (printI32 v) v) ∨ (¬ v.toInt < 0 ∧ PlainNum (printI32 v) v) := by
+  unfold printI32
+  split
+  · rename_i h
+    refine Or.inl ⟨h, _, rfl, ?_⟩
+    have := (plain_dec (uval (-v)) (uval_lt _)).2.2.2
+    rw [this, ofNat_uval]
+  · rename_i h
+    refine Or.inr ⟨h, ?_⟩
+    have := plain_dec (uval v) (uval_lt _)
+    rwa [ofNat_uval] at this
+
+theorem shape_signedHex (v : Int32) :
+    (v.toInt < 0 ∧ NegNum (signedRadix ['0', 'x'] 16 v) v) ∨ (¬ v.toInt < 0 ∧ PlainNum (signedRadix ['0', 'x'] 16 v) v) := by
+  unfold signedRadix
+  split
+  · rename_i h
+    refine Or.inl ⟨h, _, rfl, ?_⟩
+    have := (plain_hex (uval (-v)) (uval_lt _)).2.2.2
+    simp only [List.cons_append, List.nil_append]
+    rw [this, ofNat_uval]
+  · rename_i h
+    refine Or.inr ⟨h, ?_⟩
+    have := plain_hex (uval v) (uval_lt _)
+    simp only [List.cons_append, List.nil_append]
+    rwa [ofNat_uval] at this
+
+theorem shape_signedBin (v : Int32) :
+    (v.toInt < 0 ∧ NegNum (signedRadix ['0', 'b'] 2 v) v) ∨ (¬ v.toInt < 0 ∧ PlainNum (signedRadix ['0', 'b'] 2 v) v) := by
+  unfold signedRadix
+  split
+  · rename_i h
+    refine Or.inl ⟨h, _, rfl, ?_⟩
+    have := (plain_bin (uval (-v)) (uval_lt _)).2.2.2
+    simp only [List.cons_append, List.nil_append]
+    rw [this, ofNat_uval]
+  · rename_i h
+    refine Or.inr ⟨h, ?_⟩
+    have := plain_bin (uval v) (uval_lt _)
+    simp only [List.cons_append, List.nil_append]
+    rwa [ofNat_uval] at this
+
+/-- the four shapes of a printed integer literal, and what `norm` makes of them -/
+theorem printInt_shape (f : IntFormat) (v : Int32) :
+    (printInt f v = falseText ∧ normInt v f = .var { sigil := none, name := .normal falseText }) ∨
+    (printInt f v = trueText ∧ normInt v f = .var { sigil := none, name := .normal trueText }) ∨
+    (NegNum (printInt f v) v ∧ normInt v f = .unop .neg (.litInt (-v) signedDec)) ∨
+    (PlainNum (printInt f v) v ∧ normInt v f = .litInt v signedDec) := by
+  obtain ⟨signed, radix⟩ := f
+  have hu10 : PlainNum (natDigits 10 (uval v)) v := by
+    have := plain_dec (uval v) (uval_lt _); rwa [ofNat_uval] at this
+  have hu16 : PlainNum ('0' :: 'x' :: natDigits 16 (uval v)) v := by
+    have := plain_hex (uval v) (uval_lt _); rwa [ofNat_uval] at this
+  have hu2 : PlainNum ('0' :: 'b' :: natDigits 2 (uval v)) v := by
+    have := plain_bin (uval v) (uval_lt _); rwa [ofNat_uval] at this
+  cases radix <;> cases signed <;> simp only [printInt]
+  · exact Or.inr (Or.inr (Or.inr ⟨hu10, by simp [normInt]⟩))
+  · rcases shape_printI32 v with ⟨h, hn⟩ | ⟨h, hp⟩
+    · exact Or.inr (Or.inr (Or.inl ⟨hn, by simp [normInt, h]⟩))
+    · exact Or.inr (Or.inr (Or.inr ⟨hp, by simp [normInt, h]⟩))
+  · exact Or.inr (Or.inr (Or.inr ⟨hu16, by simp [normInt]⟩))
+  · rcases shape_signedHex v with ⟨h, hn⟩ | ⟨h, hp⟩
+    · exact Or.inr (Or.inr (Or.inl ⟨hn, by simp [normInt, h]⟩))
+    · exact Or.inr (Or.inr (Or.inr ⟨hp, by simp [normInt, h]⟩))
+  · exact Or.inr (Or.inr (Or.inr ⟨hu2, by simp [normInt]⟩))
+  · rcases shape_signedBin v with ⟨h, hn⟩ | ⟨h, hp⟩
+    · exact Or.inr (Or.inr (Or.inl ⟨hn, by simp [normInt, h]⟩))
+    · exact Or.inr (Or.inr (Or.inr ⟨hp, by simp [normInt, h]⟩))
+  · split
+    · rename_i h0; exact Or.inl ⟨rfl, by simp [normInt, h0]⟩
+    · rename_i h0
+      split
+      · rename_i h1; exact Or.inr (Or.inl ⟨rfl, by simp [normInt, h1]⟩)
+      · rename_i h1
+        simp only [Bool.false_eq_true, if_false]
+        exact Or.inr (Or.inr (Or.inr ⟨hu16, by simp [normInt, h0, h1]⟩))
+  · split
+    · rename_i h0; exact Or.inl ⟨rfl, by simp [normInt, h0]⟩
+    · rename_i h0
+      split
+      · rename_i h1; exact Or.inr (Or.inl ⟨rfl, by simp [normInt, h1]⟩)
+      · rename_i h1
+        simp only [if_true]
+        rcases shape_printI32 v with ⟨h, hn⟩ | ⟨h, hp⟩
+        · exact Or.inr (Or.inr (Or.inl ⟨hn, by simp [normInt, h0, h1, h]⟩))
+        · exact Or.inr (Or.inr (Or.inr ⟨hp, by simp [normInt, h0, h1, h]⟩))
+
+
+/-! ## fuel that suffices for a printed expression -/
+
+mutual
+def cost : Expr → Nat
+  | .ternary c l r => max (cost c) (max (cost l) (cost r)) + 20
+  | .binop a _ b => max (cost a) (cost b) + 20
+  | .unop _ x => cost x + 20
+  | .call _ ps as => costPs ps (costAs as) + 4
+  | .diffSwitch cs => costCs cs + 10
+  | _ => 4
+def costPs : Pseudos → Nat → Nat
+  | .nil, t => t
+  | .cons _ e ps, t => max (cost e + 20) (costPs ps t) + 1
+def costAs : Exprs → Nat
+  | .nil => 1
+  | .cons e es => max (cost e + 20) (costAs es) + 1
+def costCs : Cases → Nat
+  | .nil => 1
+  | .blank cs => costCs cs + 1
+  | .some e cs => max (cost e + 20) (costCs cs) + 1
+end
+
+/-- what is proved of every printable expression, by induction -/
+structure Good (e : Expr) : Prop where
+  unary : ∀ f rest, cost e ≤ f → stopsTerm rest.head? = true →
+    pUnary f (cl (printE false e) ++ rest) = some (norm e, rest)
+  term : negLit e = false → ∀ f rest, cost e ≤ f → stopsTerm rest.head? = true →
+    pTerm f (cl (printE false e) ++ rest) = some (norm e, rest)
+  inner : ∀ f rest, cost e + 12 ≤ f → closes rest.head? = true →
+    pExpr f (cl (printE true e) ++ rest) = some (norm e, rest)
+  head : ∃ t r, cl (printE false e) = t :: r ∧ startsExpr (some t) = true
+
+theorem Good.level {e : Expr} (h : Good e) (k : Nat) (hk : k ≤ 10) (f : Nat) (rest : List PTok)
+    (hf : cost e + 11 ≤ f + k) (hst : stopsTerm rest.head? = true)
+    (hop : ∀ op, binOpOf rest.head? = some op → op.level < k) :
+    pLevel f k (cl (printE false e) ++ rest) = some (norm e, rest) :=
+  pLevel_of_unary (g := cost e) (fun f hf => h.unary f rest hf hst) (10 - k) k (by omega) hop f (by omega)
+
+theorem Good.exprF {e : Expr} (h : Good e) (f : Nat) (rest : List PTok) (hf : cost e + 12 ≤ f)
+    (hc : closes rest.head? = true) : pExpr f (cl (printE false e) ++ rest) = some (norm e, rest) := by
+  obtain ⟨hst, hb, hq, hcol, _⟩ := closes_spec hc
+  obtain ⟨f', rfl⟩ : ∃ f', f = f' + 1 := ⟨f - 1, by omega⟩
+  exact pExpr_of_level (h.level 0 (by omega) f' rest (by omega) hst (fun op hop => by rw [hb] at hop; cases hop)) hq hcol
+
+theorem pUnary_of_nonprefix (f : Nat) (t : PTok) (r : List PTok) (h1 : t ≠ .op .sub) (h2 : t ≠ .tilde)
+    (h3 : t ≠ .bang) : pUnary (f + 1) (t :: r) = pTerm f (t :: r) := by
+  cases t with
+  | op b => cases b <;> simp_all [pUnary]
+  | _ => simp_all [pUnary]
+
+/-- an expression that prints the same with and without `SuppressParens` and is read by `pUnary` -/
+theorem good_of_unary {e : Expr} (hsame : printE true e = printE false e)
+    (hU : ∀ f rest, cost e ≤ f → stopsTerm rest.head? = true →
+      pUnary f (cl (printE false e) ++ rest) = some (norm e, rest))
+    (hT : negLit e = false → ∀ f rest, cost e ≤ f → stopsTerm rest.head? = true →
+      pTerm f (cl (printE false e) ++ rest) = some (norm e, rest))
+    (hH : ∃ t r, cl (printE false e) = t :: r ∧ startsExpr (some t) = true) : Good e := by
+  refine ⟨hU, hT, ?_, hH⟩
+  intro f rest hf hc
+  obtain ⟨hst, hb, hq, hcol, _⟩ := closes_spec hc
+  obtain ⟨f', rfl⟩ : ∃ f', f = f' + 1 := ⟨f - 1, by omega⟩
+  rw [hsame]
+  exact pExpr_of_level
+    (pLevel_of_unary (g := cost e) (fun f hf => hU f rest hf hst) 10 0 (by omega)
+      (fun op hop => by rw [hb] at hop; cases hop) f' (by omega)) hq hcol
+
+/-- a term whose first token is not a prefix operator -/
+theorem good_of_term {e : Expr} (hsame : printE true e = printE false e) (hc : 2 ≤ cost e)
+    (hT : ∀ f rest, cost e ≤ f + 1 → stopsTerm rest.head? = true →
+      pTerm f (cl (printE false e) ++ rest) = some (norm e, rest))
+    (hH : ∃ t r, cl (printE false e) = t :: r ∧ startsExpr (some t) = true ∧ t ≠ .op .sub ∧ t ≠ .tilde ∧ t ≠ .bang) :
+    Good e := by
+  obtain ⟨t, r, htr, hs, h1, h2, h3⟩ := hH
+  refine good_of_unary hsame ?_ (fun _ f rest hf hst => hT f rest (by omega) hst) ⟨t, r, htr, hs⟩
+  intro f rest hf hst
+  obtain ⟨f', rfl⟩ : ∃ f', f = f' + 1 := ⟨f - 1, by omega⟩
+  have := hT f' rest (by omega) hst
+  rw [htr] at this ⊢
+  rw [List.cons_append, pUnary_of_nonprefix f' t _ h1 h2 h3]
+  exact this
+
+/-! ## variables -/
+
+theorem int32_neg_mul_neg_one (n : Int32) : (-n) * (-1) = n := by
+  rw [Int32.mul_neg, Int32.mul_one, Int32.neg_neg]
+
+theorem pVarName_name (sg : Option Sigil) (nm : VarName) (rest : List PTok)
+    (hok : varOK { sigil := sg, name := nm } = true) :
+    pVarName sg (cl (nameToks nm) ++ rest) = some ({ sigil := sg, name := nm }, rest) := by
+  cases nm with
+  | normal id =>
+    have : identOK id = true := by simpa [varOK] using hok
+    simp [nameToks, cl_ident this, pVarName]
+  | reg n =>
+    rcases shape_printI32 n with ⟨_, hn⟩ | ⟨_, hp⟩
+    · obtain ⟨r, hr, hv⟩ := numToks_neg hn
+      simp [nameToks, hr, pVarName, hv, int32_neg_mul_neg_one]
+    · have hv := hp.2.2.2
+      simp [nameToks, numToks_plain hp, pVarName, hv]
+
+theorem pVar_varToks (v : Var) (rest : List PTok) (hok : varOK v = true) :
+    pVar (cl (varToks v) ++ rest) = some (v, rest) := by
+  obtain ⟨sg, nm⟩ := v
+  have hn := pVarName_name sg nm rest hok
+  cases sg with
+  | none =>
+    cases nm with
+    | normal id =>
+      have : identOK id = true := by simpa [varOK] using hok
+      simp [varToks, sigilToks, nameToks, cl_ident this, pVar, pVarName]
+    | reg n =>
+      have hn' := hn
+      simp only [nameToks] at hn'
+      simpa [varToks, sigilToks, nameToks, pVar] using hn'
+  | some s =>
+    cases s <;> simpa [varToks, sigilToks, pVar] using hn
+
+
+theorem pVarPost_stop (v : Var) (rest : List PTok) (h : stopsTerm rest.head? = true) :
+    pVarPost v rest = some (.var v, rest) := by
+  obtain ⟨_, _, h3, h4, h5⟩ := stopsTerm_spec h
+  simp [pVarPost, h3, h4, h5]
+
+/-- `ExprTerm` on the tokens of a variable hands over to the postfix check -/
+theorem pTerm_var (f : Nat) (v : Var) (rest : List PTok) (hok : varOK v = true)
+    (h1 : rest.head? ≠ some .lp) (h2 : rest.head? ≠ some .dot) :
+    pTerm (f + 1) (cl (varToks v) ++ rest) = pVarPost v rest := by
+  have hv := pVar_varToks v rest hok
+  obtain ⟨sg, nm⟩ := v
+  cases sg with
+  | none =>
+    cases nm with
+    | normal id =>
+      have : identOK id = true := by simpa [varOK] using hok
+      simp [varToks, sigilToks, nameToks, cl_ident this, pTerm, h1, h2]
+    | reg n =>
+      simp [varToks, sigilToks, nameToks] at hv ⊢
+      simp [pTerm, hv]
+  | some s =>
+    cases nm with
+    | normal id =>
+      have : identOK id = true := by simpa [varOK] using hok
+      cases s <;> (simp [varToks, sigilToks, nameToks, cl_ident this] at hv ⊢; simp [pTerm, hv])
+    | reg n =>
+      cases s <;> (simp [varToks, sigilToks, nameToks] at hv ⊢; simp [pTerm, hv])
+
+theorem varToks_head (v : Var) (hok : varOK v = true) :
+    ∃ t r, cl (varToks v) = t :: r ∧ startsExpr (some t) = true ∧ t ≠ .op .sub ∧ t ≠ .tilde ∧ t ≠ .bang := by
+  obtain ⟨sg, nm⟩ := v
+  cases sg with
+  | none =>
+    cases nm with
+    | normal id =>
+      have : identOK id = true := by simpa [varOK] using hok
+      exact ⟨.ident id, [], by simp [varToks, sigilToks, nameToks, cl_ident this], rfl, by simp, by simp, by simp⟩
+    | reg n => exact ⟨.reg, _, by simp [varToks, sigilToks, nameToks]; rfl, rfl, by simp, by simp, by simp⟩
+  | some s =>
+    cases s with
+    | int => exact ⟨.dollar, _, by simp [varToks, sigilToks]; rfl, rfl, by simp, by simp, by simp⟩
+    | float => exact ⟨.op .rem, _, by simp [varToks, sigilToks]; rfl, rfl, by simp, by simp, by simp⟩
+
+theorem good_var (v : Var) (hok : varOK v = true) : Good (.var v) := by
+  refine good_of_term rfl (by simp [cost]) ?_ (by simpa [printE] using varToks_head v hok)
+  intro f rest hf hst
+  obtain ⟨f', rfl⟩ : ∃ f', f = f' + 1 := ⟨f - 1, by simp [cost] at hf; omega⟩
+  obtain ⟨h1, h2, _, _, _⟩ := stopsTerm_spec hst
+  simp only [printE, norm]
+  rw [pTerm_var f' v rest hok h1 h2, pVarPost_stop v rest hst]
+
+theorem good_xcrement (pre inc : Bool) (v : Var) (hok : varOK v = true) : Good (.xcrement pre inc v) := by
+  cases pre with
+  | true =>
+    refine good_of_term rfl (by simp [cost]) ?_ ?_
+    · intro f rest hf hst
+      obtain ⟨f', rfl⟩ : ∃ f', f = f' + 1 := ⟨f - 1, by simp [cost] at hf; omega⟩
+      have hv := pVar_varToks v rest hok
+      cases inc <;> simp [printE, norm, pTerm, hv]
+    · cases inc
+      · exact ⟨.dec, _, by simp [printE]; rfl, rfl, by simp, by simp, by simp⟩
+      · exact ⟨.inc, _, by simp [printE]; rfl, rfl, by simp, by simp, by simp⟩
+  | false =>
+    refine good_of_term rfl (by simp [cost]) ?_ ?_
+    · intro f rest hf hst
+      obtain ⟨f', rfl⟩ : ∃ f', f = f' + 1 := ⟨f - 1, by simp [cost] at hf; omega⟩
+      have := pTerm_var f' v ((if inc then PTok.inc else PTok.dec) :: rest) hok (by cases inc <;> simp) (by cases inc <;> simp)
+      simp only [printE, norm, Bool.false_eq_true, if_false, List.map_append, List.map_cons, List.map_nil,
+        cl_xcr, List.append_assoc, List.cons_append, List.nil_append]
+      rw [this]
+      cases inc <;> simp [pVarPost]
+    · obtain ⟨t, r, htr, hs, h1, h2, h3⟩ := varToks_head v hok
+      exact ⟨t, r ++ [if inc then PTok.inc else PTok.dec], by simp [printE, htr], hs, h1, h2, h3⟩
+
+/-! ## literals -/
+
+theorem good_litInt (v : Int32) (f : IntFormat) : Good (.litInt v f) := by
+  rcases printInt_shape f v with ⟨ht, hn⟩ | ⟨ht, hn⟩ | ⟨hneg, hn⟩ | ⟨hp, hn⟩
+  · refine good_of_term rfl (by simp [cost]) ?_ ⟨.ident falseText, [], by rw [show printE false (.litInt v f) = numToks (printInt f v) from rfl, ht]; decide, rfl, by simp, by simp, by simp⟩
+    intro g rest hg hst
+    obtain ⟨g', rfl⟩ : ∃ g', g = g' + 1 := ⟨g - 1, by simp [cost] at hg; omega⟩
+    obtain ⟨h1, h2, _, _, _⟩ := stopsTerm_spec hst
+    have hnum : numToks falseText = [.word falseText] := by decide
+    simp [printE, norm, ht, hn, hnum, pTerm, h1, h2, pVarPost_stop _ rest hst]
+  · refine good_of_term rfl (by simp [cost]) ?_ ⟨.ident trueText, [], by rw [show printE false (.litInt v f) = numToks (printInt f v) from rfl, ht]; decide, rfl, by simp, by simp, by simp⟩
+    intro g rest hg hst
+    obtain ⟨g', rfl⟩ : ∃ g', g = g' + 1 := ⟨g - 1, by simp [cost] at hg; omega⟩
+    obtain ⟨h1, h2, _, _, _⟩ := stopsTerm_spec hst
+    have hnum : numToks trueText = [.word trueText] := by decide
+    simp [printE, norm, ht, hn, hnum, pTerm, h1, h2, pVarPost_stop _ rest hst]
+  · obtain ⟨r, hr, hv⟩ := numToks_neg hneg
+    refine good_of_unary rfl ?_ ?_ ⟨.op .sub, [.int r], by simp [printE, hr], rfl⟩
+    · intro g rest hg hst
+      obtain ⟨g', rfl⟩ : ∃ g', g = g' + 2 := ⟨g - 2, by simp [cost] at hg; omega⟩
+      simp [printE, norm, hn, hr, pUnary, pTerm, hv]
+    · intro hnl
+      obtain ⟨r', hr', _⟩ := hneg
+      simp [negLit, hr'] at hnl
+  · have hv := hp.2.2.2
+    refine good_of_term rfl (by simp [cost]) ?_ ⟨.int (printInt f v), [], by simp [printE, numToks_plain hp], rfl, by simp, by simp, by simp⟩
+    intro g rest hg hst
+    obtain ⟨g', rfl⟩ : ∃ g', g = g' + 1 := ⟨g - 1, by simp [cost] at hg; omega⟩
+    simp [printE, norm, hn, numToks_plain hp, pTerm, hv]
+
+theorem good_litFloat (neg : Bool) (b : FloatBody) : Good (.litFloat neg b) := by
+  cases b with
+  | num t =>
+    cases neg with
+    | false =>
+      refine good_of_term rfl (by simp [cost]) ?_ ⟨.float t, [], by simp [printE, floatToks], rfl, by simp, by simp, by simp⟩
+      intro g rest hg hst
+      obtain ⟨g', rfl⟩ : ∃ g', g = g' + 1 := ⟨g - 1, by simp [cost] at hg; omega⟩
+      simp [printE, norm, normFloat, wrapNeg, floatToks, pTerm]
+    | true =>
+      refine good_of_unary rfl ?_ (by simp [negLit]) ⟨.op .sub, [.float t], by simp [printE, floatToks], rfl⟩
+      intro g rest hg hst
+      obtain ⟨g', rfl⟩ : ∃ g', g = g' + 2 := ⟨g - 2, by simp [cost] at hg; omega⟩
+      simp [printE, norm, normFloat, wrapNeg, floatToks, pUnary, pTerm]
+  | inf =>
+    cases neg with
+    | false =>
+      refine good_of_term rfl (by simp [cost]) ?_ ⟨.ident infText, [], by simp [printE, floatToks], rfl, by simp, by simp, by simp⟩
+      intro g rest hg hst
+      obtain ⟨g', rfl⟩ : ∃ g', g = g' + 1 := ⟨g - 1, by simp [cost] at hg; omega⟩
+      obtain ⟨h1, h2, _, _, _⟩ := stopsTerm_spec hst
+      simp [printE, norm, normFloat, wrapNeg, floatToks, pTerm, h1, h2, pVarPost_stop _ rest hst]
+    | true =>
+      refine good_of_unary rfl ?_ (by simp [negLit]) ⟨.op .sub, [.ident infText], by simp [printE, floatToks], rfl⟩
+      intro g rest hg hst
+      obtain ⟨g', rfl⟩ : ∃ g', g = g' + 2 := ⟨g - 2, by simp [cost] at hg; omega⟩
+      obtain ⟨h1, h2, _, _, _⟩ := stopsTerm_spec hst
+      simp [printE, norm, normFloat, wrapNeg, floatToks, pUnary, pTerm, h1, h2, pVarPost_stop _ rest hst]
+  | nan =>
+    refine good_of_term rfl (by simp [cost]) ?_ ⟨.ident nanText, [], by simp [printE, floatToks], rfl, by simp, by simp, by simp⟩
+    intro g rest hg hst
+    obtain ⟨g', rfl⟩ : ∃ g', g = g' + 1 := ⟨g - 1, by simp [cost] at hg; omega⟩
+    obtain ⟨h1, h2, _, _, _⟩ := stopsTerm_spec hst
+    simp [printE, norm, normFloat, floatToks, pTerm, h1, h2, pVarPost_stop _ rest hst]
+
+theorem good_litString (s : List Char) : Good (.litString s) := by
+  refine good_of_term rfl (by simp [cost]) ?_ ⟨.str (escapeString s), [], by simp [printE], rfl, by simp, by simp, by simp⟩
+  intro g rest hg hst
+  obtain ⟨g', rfl⟩ : ∃ g', g = g' + 1 := ⟨g - 1, by simp [cost] at hg; omega⟩
+  have := string_escape_roundtrip s
+  unfold unescapeString at this
+  simp [printE, norm, pTerm, this]
+
+theorem good_labelProp (kw : LabelKw) (l : List Char) (hl : identOK l = true) : Good (.labelProp kw l) := by
+  refine good_of_term rfl (by simp [cost]) ?_ ⟨.labelKw kw, _, by simp [printE]; rfl, rfl, by simp, by simp, by simp⟩
+  intro g rest hg hst
+  obtain ⟨g', rfl⟩ : ∃ g', g = g' + 1 := ⟨g - 1, by simp [cost] at hg; omega⟩
+  simp [printE, norm, pTerm, cl_ident hl]
+
+theorem good_enumConst (en id : List Char) (h1 : identOK en = true) (h2 : identOK id = true) : Good (.enumConst en id) := by
+  refine good_of_term rfl (by simp [cost]) ?_ ⟨.ident en, _, by simp [printE, cl_ident h1]; rfl, rfl, by simp, by simp, by simp⟩
+  intro g rest hg hst
+  obtain ⟨g', rfl⟩ : ∃ g', g = g' + 1 := ⟨g - 1, by simp [cost] at hg; omega⟩
+  simp [printE, norm, pTerm, cl_ident h1, cl_ident h2]
+
+
+/-! ## parenthesised compounds -/
+
+/-- an expression that `fmt_optional_parens` wraps: everything follows from reading its inside -/
+theorem good_of_inner {e : Expr} (hwrap : printE false e = tLp :: (printE true e ++ [tRp])) (hc : 3 ≤ cost e)
+    (hin : ∀ f rest, cost e ≤ f + 2 → closes rest.head? = true →
+      pExpr f (cl (printE true e) ++ rest) = some (norm e, rest)) : Good e := by
+  have hT : ∀ f rest, cost e ≤ f + 1 → pTerm f (cl (printE false e) ++ rest) = some (norm e, rest) := by
+    intro f rest hf
+    obtain ⟨f', rfl⟩ : ∃ f', f = f' + 1 := ⟨f - 1, by omega⟩
+    have h := hin f' (.rp :: rest) (by omega) rfl
+    simp [hwrap, pTerm, h]
+  refine ⟨?_, fun _ f rest hf _ => hT f rest (by omega), fun f rest hf hc => hin f rest (by omega) hc,
+    ⟨.lp, _, by rw [hwrap]; rfl, rfl⟩⟩
+  intro f rest hf _
+  obtain ⟨f', rfl⟩ : ∃ f', f = f' + 1 := ⟨f - 1, by omega⟩
+  have := hT f' rest (by omega)
+  rw [hwrap] at this ⊢
+  simp only [List.map_cons, cl_lp, List.cons_append] at this ⊢
+  rw [pUnary_of_nonprefix f' .lp _ (by simp) (by simp) (by simp)]
+  exact this
+
+theorem pLevel_step {f k : Nat} {toks r : List PTok} {a : Expr} (hk : ¬ 10 ≤ k)
+    (h : pLevel f (k + 1) toks = some (a, r)) : pLevel (f + 1) k toks = pLoop f k a r := by
+  simp only [pLevel, hk, if_false, h]
+
+theorem pLoop_step_op {f k : Nat} {a b : Expr} {op : BinOp} {r r2 : List PTok} (h : op.level = k)
+    (h2 : pLevel f (k + 1) r = some (b, r2)) :
+    pLoop (f + 1) k a (.op op :: r) = pLoop f k (.binop a op b) r2 := by
+  simp [pLoop, binOpOf, h, h2]
+
+theorem BinOp.level_le (op : BinOp) : op.level ≤ 9 := by cases op <;> simp [BinOp.level]
+
+theorem good_binop {a b : Expr} (op : BinOp) (ha : Good a) (hb : Good b) : Good (.binop a op b) := by
+  refine good_of_inner (by simp [printE, wrap]) (by simp [cost]) ?_
+  intro f rest hf hc
+  obtain ⟨hst, hbo, hq, hcol, _⟩ := closes_spec hc
+  have hL := BinOp.level_le op
+  simp only [cost] at hf
+  -- tier of the operator
+  have base : ∀ g, max (cost a) (cost b) + 13 - op.level ≤ g →
+      pLevel g op.level (cl (printE false a) ++ (.op op :: (cl (printE false b) ++ rest))) =
+        some (.binop (norm a) op (norm b), rest) := by
+    intro g hg
+    obtain ⟨g', rfl⟩ : ∃ g', g = g' + 3 := ⟨g - 3, by omega⟩
+    have h10 : ¬ 10 ≤ op.level := by omega
+    have h1 := ha.level (op.level + 1) (by omega) (g' + 2) (.op op :: (cl (printE false b) ++ rest)) (by omega)
+      rfl (fun op' hop' => by simp [binOpOf] at hop'; subst hop'; omega)
+    have h2 := hb.level (op.level + 1) (by omega) (g' + 1) rest (by omega) hst
+      (fun op' hop' => by rw [hbo] at hop'; cases hop')
+    have h3 := pLoop_stop g' op.level (.binop (norm a) op (norm b)) rest
+      (fun op' hop' => by rw [hbo] at hop'; cases hop')
+    rw [pLevel_step h10 h1, pLoop_step_op rfl h2]
+    exact h3
+  obtain ⟨f', rfl⟩ : ∃ f', f = f' + 1 := ⟨f - 1, by omega⟩
+  have h0 := pLevel_lift (k0 := op.level) (by omega) (by omega) base hbo op.level 0 (by omega) f' (by omega)
+  have := pExpr_of_level h0 hq hcol
+  simpa [printE, wrap, norm] using this
+
+theorem pTernRhs_good {x : Expr} (hx : Good x) (g : Nat) (rest : List PTok) (hg : cost x + 12 ≤ g)
+    (hst : stopsTerm rest.head? = true) (hbo : binOpOf rest.head? = none) (hq : rest.head? ≠ some .quest) :
+    pTernRhs g (cl (printE false x) ++ rest) = some (norm x, rest) := by
+  obtain ⟨g', rfl⟩ : ∃ g', g = g' + 1 := ⟨g - 1, by omega⟩
+  exact pTernRhs_of_level (hx.level 0 (by omega) g' rest (by omega) hst (fun op hop => by rw [hbo] at hop; cases hop)) hq
+
+theorem good_ternary {c l r : Expr} (hc : Good c) (hl : Good l) (hr : Good r) : Good (.ternary c l r) := by
+  refine good_of_inner (by simp [printE, wrap]) (by simp [cost]) ?_
+  intro f rest hf hcl
+  obtain ⟨hst, hbo, hq, hcol, _⟩ := closes_spec hcl
+  simp only [cost] at hf
+  obtain ⟨f', rfl⟩ : ∃ f', f = f' + 1 := ⟨f - 1, by omega⟩
+  have h1 := hc.level 0 (by omega) f' (.quest :: (cl (printE false l) ++ (.colon :: (cl (printE false r) ++ rest))))
+    (by omega) rfl (fun op hop => by simp [binOpOf] at hop)
+  have h2 := pTernRhs_good hl f' (.colon :: (cl (printE false r) ++ rest)) (by omega) rfl rfl (by simp)
+  have h3 := pTernRhs_good hr f' rest (by omega) hst hbo hq
+  simp [printE, wrap, norm, pExpr, h1, h2, h3]
+
+/-- the three operators written in front of their operand -/
+theorem prefix_tok (op : UnOp) (hp : op.isPrefix = true) :
+    ∃ pt, classify op.tok = pt ∧ startsExpr (some pt) = true ∧
+      ∀ g r x r2, pTerm g r = some (x, r2) → pUnary (g + 1) (pt :: r) = some (.unop op x, r2) := by
+  cases op with
+  | neg => exact ⟨.op .sub, by decide, rfl, fun g r x r2 h => by simp [pUnary, h]⟩
+  | not => exact ⟨.bang, by decide, rfl, fun g r x r2 h => by simp [pUnary, h]⟩
+  | bitNot => exact ⟨.tilde, by decide, rfl, fun g r x r2 h => by simp [pUnary, h]⟩
+  | _ => exact absurd hp (by decide)
+
+theorem good_prefix {x : Expr} (op : UnOp) (hp : op.isPrefix = true) (hx : Good x) (hneg : negLit x = false) :
+    Good (.unop op x) := by
+  obtain ⟨pt, hpt, _, hun⟩ := prefix_tok op hp
+  refine good_of_inner (by simp [printE, hp, wrap]) (by simp [cost]) ?_
+  intro f rest hf hcl
+  obtain ⟨hst, hbo, hq, hcol, _⟩ := closes_spec hcl
+  simp only [cost] at hf
+  obtain ⟨f', rfl⟩ : ∃ f', f = f' + 1 := ⟨f - 1, by omega⟩
+  have hU : ∀ g, cost x + 1 ≤ g → pUnary g ((pt :: cl (printE false x)) ++ rest) = some (.unop op (norm x), rest) := by
+    intro g hg
+    obtain ⟨g', rfl⟩ : ∃ g', g = g' + 1 := ⟨g - 1, by omega⟩
+    rw [List.cons_append]
+    exact hun _ _ _ _ (hx.term hneg g' rest (by omega) hst)
+  have h0 := pLevel_of_unary hU 10 0 (by omega) (fun op' hop' => by rw [hbo] at hop'; cases hop') f' (by omega)
+  have := pExpr_of_level h0 hq hcol
+  simpa [printE, hp, wrap, norm, hpt] using this
+
+theorem good_func {x : Expr} (u : UnOp) (hp : u.isPrefix = false) (hx : Good x) : Good (.unop u x) := by
+  have hpr : printE false (.unop u x) = u.tok :: tLp :: (printE true x ++ [tRp]) := by simp [printE, hp]
+  have hT : ∀ f rest, cost (.unop u x) ≤ f + 1 → pTerm f (cl (printE false (.unop u x)) ++ rest) = some (norm (.unop u x), rest) := by
+    intro f rest hf
+    simp only [cost] at hf
+    obtain ⟨f', rfl⟩ : ∃ f', f = f' + 1 := ⟨f - 1, by omega⟩
+    have h := hx.inner f' (.rp :: rest) (by omega) rfl
+    rcases cl_unop_func u hp with hc | ⟨rfl, hc⟩ | ⟨rfl, hc⟩ <;> simp [hpr, hc, pTerm, h, norm]
+  refine good_of_term (by simp [printE, hp]) (by simp [cost]) (fun f rest hf _ => hT f rest hf) ?_
+  rcases cl_unop_func u hp with hc | ⟨rfl, hc⟩ | ⟨rfl, hc⟩
+  · exact ⟨.func u, _, by rw [hpr, List.map_cons, hc], rfl, by simp, by simp, by simp⟩
+  · exact ⟨.dollar, _, by rw [hpr, List.map_cons, hc], rfl, by simp, by simp, by simp⟩
+  · exact ⟨.op .rem, _, by rw [hpr, List.map_cons, hc], rfl, by simp, by simp, by simp⟩
+
+
+/-! ## calls -/
+
+theorem startsExpr_ne {t : PTok} (h : startsExpr (some t) = true) :
+    t ≠ .rp ∧ t ≠ .at ∧ t ≠ .colon ∧ t ≠ .comma ∧ t ≠ .quest := by
+  cases t <;> simp_all [startsExpr]
+
+/-- the plain arguments of a call, up to and including the closing parenthesis -/
+def ArgsOK (as : Exprs) : Prop :=
+  ∀ f rest, costAs as ≤ f →
+    pItems f (cl (printArgs as) ++ .rp :: rest) = some ((.nil, normAs as), rest)
+
+/-- pseudo-arguments followed by plain arguments -/
+def ItemsOK (ps : Pseudos) (as : Exprs) : Prop :=
+  ∀ f rest, costPs ps (costAs as) ≤ f →
+    pItems f (cl (printItems ps as.isNil (printArgs as)) ++ .rp :: rest) = some ((normPs ps, normAs as), rest)
+
+theorem argsOK_nil : ArgsOK .nil := by
+  intro f rest hf
+  simp only [costAs] at hf
+  obtain ⟨f', rfl⟩ : ∃ f', f = f' + 1 := ⟨f - 1, by omega⟩
+  simp [printArgs, pItems, normAs]
+
+theorem argsOK_cons {e : Expr} {es : Exprs} (he : Good e) (hes : ArgsOK es) : ArgsOK (.cons e es) := by
+  intro f rest hf
+  simp only [costAs] at hf
+  obtain ⟨f', rfl⟩ : ∃ f', f = f' + 1 := ⟨f - 1, by omega⟩
+  obtain ⟨t, r, htr, hs⟩ := he.head
+  obtain ⟨n1, n2, _, _, _⟩ := startsExpr_ne hs
+  cases es with
+  | nil =>
+    have hE := he.exprF f' (.rp :: rest) (by omega) rfl
+    have hhead : (cl (printE false e) ++ .rp :: rest).head? = some t := by rw [htr]; rfl
+    simp only [printArgs, Exprs.isNil, if_true, List.append_nil, normAs]
+    simp only [pItems, hhead, hE]
+    simp [n1, n2]
+  | cons e' es' =>
+    have hE := he.exprF f' (.comma :: (cl (printArgs (.cons e' es')) ++ .rp :: rest)) (by omega) rfl
+    have hR := hes f' rest (by omega)
+    have hhead : (cl (printE false e) ++ .comma :: (cl (printArgs (.cons e' es')) ++ .rp :: rest)).head? = some t := by
+      rw [htr]; rfl
+    have hform : cl (printArgs (.cons e (.cons e' es'))) ++ .rp :: rest =
+        cl (printE false e) ++ .comma :: (cl (printArgs (.cons e' es')) ++ .rp :: rest) := by
+      simp [printArgs, Exprs.isNil]
+    rw [hform]
+    simp only [pItems, hhead, hE]
+    simp [n1, n2, hR, Pseudos.isNil, normAs]
+
+theorem itemsOK_nil {as : Exprs} (ha : ArgsOK as) : ItemsOK .nil as := by
+  intro f rest hf
+  simpa [printItems, normPs] using ha f rest (by simpa [costPs] using hf)
+
+theorem itemsOK_cons {k : PseudoKind} {e : Expr} {ps : Pseudos} {as : Exprs} (he : Good e)
+    (hps : ItemsOK ps as) : ItemsOK (.cons k e ps) as := by
+  intro f rest hf
+  simp only [costPs] at hf
+  obtain ⟨f', rfl⟩ : ∃ f', f = f' + 1 := ⟨f - 1, by omega⟩
+  have hR := hps f' rest (by omega)
+  by_cases hlast : (ps.isNil && as.isNil) = true
+  · -- the last item
+    have hps' : ps = .nil := by cases ps <;> simp_all [Pseudos.isNil]
+    have has' : as = .nil := by cases as <;> simp_all [Exprs.isNil]
+    subst hps'; subst has'
+    have hE := he.exprF f' (.rp :: rest) (by omega) rfl
+    have hform : cl (printItems (.cons k e .nil) Exprs.nil.isNil (printArgs .nil)) ++ .rp :: rest =
+        .at :: .ident k.text :: .assign :: (cl (printE false e) ++ .rp :: rest) := by
+      simp [printItems, printArgs, Pseudos.isNil, Exprs.isNil]
+    rw [hform]
+    simp [pItems, hE, normPs, normAs]
+  · have hE := he.exprF f' (.comma :: (cl (printItems ps as.isNil (printArgs as)) ++ .rp :: rest)) (by omega) rfl
+    have hform : cl (printItems (.cons k e ps) as.isNil (printArgs as)) ++ .rp :: rest =
+        .at :: .ident k.text :: .assign :: (cl (printE false e) ++
+          .comma :: (cl (printItems ps as.isNil (printArgs as)) ++ .rp :: rest)) := by
+      simp [printItems, hlast]
+    rw [hform]
+    simp [pItems, hE, hR, normPs]
+
+theorem natDigits10_canon (n : Nat) (hn : 1 ≤ n) :
+    ∃ c r, natDigits 10 n = c :: r ∧ isDigit c = true ∧ c ≠ '0' ∧ r.all isDigit = true := by
+  induction n using Nat.strongRecOn with
+  | _ n ih =>
+    by_cases hlt : n < 10
+    · have key : ∀ d, d < 10 → 1 ≤ d → isDigit (digitChar d) = true ∧ digitChar d ≠ '0' := by decide
+      exact ⟨digitChar n, [], natDigits_lt hlt, (key n hlt hn).1, (key n hlt hn).2, rfl⟩
+    · obtain ⟨c, r, hcr, h1, h2, h3⟩ := ih (n / 10) (Nat.div_lt_self (by omega) (by omega)) (by omega)
+      refine ⟨c, r ++ [digitChar (n % 10)], ?_, h1, h2, ?_⟩
+      · rw [natDigits_ge (by omega) (by omega), hcr]; rfl
+      · simp [h3, isDigit_digitChar (n % 10) (Nat.mod_lt _ (by omega))]
+
+theorem insOpcode_natDigits (n : Nat) (hn : n < 65536) : insOpcode (natDigits 10 n) = some n := by
+  have hp := parseDigits_natDigits (b := 10) (by omega) (by omega) n []
+  simp only [List.append_nil, parseDigitsFrom] at hp
+  have hc : isCanonicalInt (natDigits 10 n) = true := by
+    by_cases h0 : n = 0
+    · subst h0; decide
+    · obtain ⟨c, r, hcr, h1, h2, h3⟩ := natDigits10_canon n (by omega)
+      rw [hcr]
+      unfold isCanonicalInt
+      split
+      · simp at *
+      · rename_i heq; simp at heq; exact absurd heq.1 h2
+      · rename_i c' r' _ heq
+        simp at heq
+        obtain ⟨rfl, rfl⟩ := heq
+        simp [h1, h2, h3]
+  simp [insOpcode, hc, hp, hn]
+
+theorem good_call {name : CallName} {ps : Pseudos} {as : Exprs} (hname : name.ok = true)
+    (hitems : ItemsOK ps as) : Good (.call name ps as) := by
+  have hT : ∀ f rest, cost (.call name ps as) ≤ f + 1 →
+      pTerm f (cl (printE false (.call name ps as)) ++ rest) = some (norm (.call name ps as), rest) := by
+    intro f rest hf
+    simp only [cost] at hf
+    obtain ⟨f', rfl⟩ : ∃ f', f = f' + 1 := ⟨f - 1, by omega⟩
+    have hI := hitems f' rest (by omega)
+    cases name with
+    | normal id =>
+      have hid : identOK id = true := by simpa [CallName.ok] using hname
+      simp [printE, CallName.tok, cl_ident hid, pTerm, hI, norm]
+    | ins n =>
+      have hn : n < 65536 := by simpa [CallName.ok] using hname
+      simp [printE, CallName.tok, cl_ins, pTerm, insOpcode_natDigits n hn, hI, norm]
+  refine good_of_term (by simp [printE]) (by simp [cost]) (fun f rest hf _ => hT f rest hf) ?_
+  cases name with
+  | normal id =>
+    have hid : identOK id = true := by simpa [CallName.ok] using hname
+    exact ⟨.ident id, _, by simp [printE, CallName.tok, cl_ident hid]; rfl, rfl, by simp, by simp, by simp⟩
+  | ins n => exact ⟨.ins (natDigits 10 n), _, by simp [printE, CallName.tok, cl_ins]; rfl, rfl, by simp, by simp, by simp⟩
+
+/-! ## difficulty switches -/
+
+def CasesOK (cs : Cases) : Prop :=
+  ∀ f rest, costCs cs ≤ f → closes rest.head? = true →
+    pSwitch f (cl (printCasesT cs) ++ rest) = some (normCs cs, rest)
+
+theorem casesT_head (cs : Cases) (rest : List PTok) :
+    (cl (printCasesT cs) ++ rest).head? = if cs.isNil then rest.head? else some .colon := by
+  cases cs <;> simp [printCasesT, Cases.isNil]
+
+theorem casesT_head_stops (cs : Cases) (rest : List PTok) (hc : closes rest.head? = true) :
+    stopsTerm (cl (printCasesT cs) ++ rest).head? = true ∧ binOpOf (cl (printCasesT cs) ++ rest).head? = none ∧
+      startsExpr (cl (printCasesT cs) ++ rest).head? = false ∧ (cl (printCasesT cs) ++ rest).head? ≠ some .quest := by
+  obtain ⟨h1, h2, h3, _, h5⟩ := closes_spec hc
+  rw [casesT_head]
+  split
+  · exact ⟨h1, h2, h5, h3⟩
+  · exact ⟨rfl, rfl, rfl, by simp⟩
+
+theorem casesOK_nil : CasesOK .nil := by
+  intro f rest hf hc
+  obtain ⟨_, _, _, hcol, _⟩ := closes_spec hc
+  simp only [costCs] at hf
+  obtain ⟨f', rfl⟩ : ∃ f', f = f' + 1 := ⟨f - 1, by omega⟩
+  simp [printCasesT, pSwitch, hcol, normCs]
+
+theorem casesOK_blank {cs : Cases} (h : CasesOK cs) : CasesOK (.blank cs) := by
+  intro f rest hf hc
+  simp only [costCs] at hf
+  obtain ⟨f', rfl⟩ : ∃ f', f = f' + 1 := ⟨f - 1, by omega⟩
+  obtain ⟨_, _, hs, _⟩ := casesT_head_stops cs rest hc
+  have hR := h f' rest (by omega) hc
+  have hform : cl (printCasesT (.blank cs)) ++ rest = .colon :: (cl (printCasesT cs) ++ rest) := by
+    simp [printCasesT]
+  rw [hform]
+  simp only [pSwitch, List.head?_cons, List.tail_cons, hs, hR, ↓reduceIte, Bool.false_eq_true, normCs]
+
+theorem casesOK_some {e : Expr} {cs : Cases} (he : Good e) (h : CasesOK cs) : CasesOK (.some e cs) := by
+  intro f rest hf hc
+  simp only [costCs] at hf
+  obtain ⟨f', rfl⟩ : ∃ f', f = f' + 1 := ⟨f - 1, by omega⟩
+  obtain ⟨hst, hbo, _, _⟩ := casesT_head_stops cs rest hc
+  obtain ⟨t, r, htr, hs⟩ := he.head
+  have hR := h f' rest (by omega) hc
+  have hL := he.level 0 (by omega) f' (cl (printCasesT cs) ++ rest) (by omega) hst
+    (fun op hop => by rw [hbo] at hop; cases hop)
+  have hhead : (cl (printE false e) ++ (cl (printCasesT cs) ++ rest)).head? = some t := by rw [htr]; rfl
+  have hform : cl (printCasesT (.some e cs)) ++ rest = .colon :: (cl (printE false e) ++ (cl (printCasesT cs) ++ rest)) := by
+    simp [printCasesT]
+  rw [hform]
+  simp [pSwitch, hhead, hs, hL, hR, normCs]
+
+theorem good_switch {e : Expr} {cs : Cases} (he : Good e) (hne : cs.isNil = false) (hcs : CasesOK cs) :
+    Good (.diffSwitch (.some e cs)) := by
+  refine good_of_inner (by simp [printE, wrap]) (by simp [cost, costCs]) ?_
+  intro f rest hf hc
+  simp only [cost, costCs] at hf
+  obtain ⟨f', rfl⟩ : ∃ f', f = f' + 1 := ⟨f - 1, by omega⟩
+  obtain ⟨hst, hbo, _, hq⟩ := casesT_head_stops cs rest hc
+  have hcolon : (cl (printCasesT cs) ++ rest).head? = some .colon := by rw [casesT_head]; simp [hne]
+  have hL := he.level 0 (by omega) f' (cl (printCasesT cs) ++ rest) (by omega) hst
+    (fun op hop => by rw [hbo] at hop; cases hop)
+  have hR := hcs f' rest (by omega) hc
+  have hform : cl (printE true (.diffSwitch (.some e cs))) ++ rest =
+      cl (printE false e) ++ (cl (printCasesT cs) ++ rest) := by
+    simp [printE, printCases, wrap]
+  rw [hform]
+  simp only [pExpr, hL, hcolon, hR, norm, normCs]
+  simp
+
+
+/-! ## the induction -/
+
+theorem negLit_of_startsMinus {x : Expr} (h : startsMinus x = false) : negLit x = false := by
+  cases x <;> simp_all [startsMinus, negLit]
+  all_goals (rename_i pre inc v; cases pre <;> cases inc <;> simp_all [startsMinus, negLit])
+
+theorem textOf_ts_numToks_neg (r : List Char) : textOf (ts (numToks ('-' :: r))) = '-' :: r := by
+  simp [numToks, ts, textOf, EP.chars, tokChars, tMinus]
+
+/-- a negative number starts with `-`, a difficulty character -/
+theorem startsDiffChar_of_negLit {x : Expr} (h : negLit x = true) : startsDiffChar x = true := by
+  cases x with
+  | litInt v f =>
+    have hh : (printInt f v).head? = some '-' := by simpa [negLit] using h
+    cases hp : printInt f v with
+    | nil => rw [hp] at hh; simp at hh
+    | cons c t =>
+      rw [hp] at hh
+      simp only [List.head?_cons, Option.some.injEq] at hh
+      subst hh
+      simp [startsDiffChar, firstChar, printText, printP, hp, textOf_ts_numToks_neg]
+      decide
+  | litFloat neg b =>
+    cases b <;> cases neg <;> simp_all [negLit]
+    all_goals (simp [startsDiffChar, firstChar, printText, printP, floatToks, ts, textOf, EP.chars, tokChars, tMinus]; decide)
+  | _ => simp [negLit] at h
+
+mutual
+theorem good : ∀ (e : Expr), NoGlue e = true → Good e
+  | .ternary c l r, h => by
+    simp only [NoGlue, Bool.and_eq_true] at h
+    exact good_ternary (good c h.1.1) (good l h.1.2) (good r h.2)
+  | .binop a op b, h => by
+    simp only [NoGlue, Bool.and_eq_true] at h
+    exact good_binop op (good a h.1) (good b h.2)
+  | .unop op x, h => by
+    simp only [NoGlue, Bool.and_eq_true] at h
+    have hx := good x h.1
+    cases op with
+    | neg => exact good_prefix .neg rfl hx (negLit_of_startsMinus (by simpa using h.2))
+    | bitNot => exact good_prefix .bitNot rfl hx (by simpa using h.2)
+    | not =>
+      refine good_prefix .not rfl hx ?_
+      cases hn : negLit x with
+      | false => rfl
+      | true => have := startsDiffChar_of_negLit hn; simp [this] at h
+    | sin => exact good_func .sin rfl hx
+    | cos => exact good_func .cos rfl hx
+    | tan => exact good_func .tan rfl hx
+    | asin => exact good_func .asin rfl hx
+    | acos => exact good_func .acos rfl hx
+    | atan => exact good_func .atan rfl hx
+    | sqrt => exact good_func .sqrt rfl hx
+    | encI => exact good_func .encI rfl hx
+    | encF => exact good_func .encF rfl hx
+    | castI => exact good_func .castI rfl hx
+    | castF => exact good_func .castF rfl hx
+  | .xcrement pre inc v, h => good_xcrement pre inc v (by simpa [NoGlue] using h)
+  | .var v, h => good_var v (by simpa [NoGlue] using h)
+  | .call name ps as, h => by
+    simp only [NoGlue, Bool.and_eq_true] at h
+    exact good_call h.1.1 (goodPs ps h.1.2 as (goodAs as h.2))
+  | .diffSwitch (.some e cs), h => by
+    simp only [NoGlue, Bool.and_eq_true, Bool.not_eq_true'] at h
+    exact good_switch (good e h.1.1) h.1.2 (goodCs cs h.2)
+  | .diffSwitch .nil, h => by simp [NoGlue] at h
+  | .diffSwitch (.blank _), h => by simp [NoGlue] at h
+  | .litInt v f, _ => good_litInt v f
+  | .litFloat neg b, _ => good_litFloat neg b
+  | .litString s, _ => good_litString s
+  | .labelProp kw l, h => good_labelProp kw l (by simpa [NoGlue] using h)
+  | .enumConst en id, h => by
+    simp only [NoGlue, Bool.and_eq_true] at h
+    exact good_enumConst en id h.1 h.2
+theorem goodAs : ∀ (as : Exprs), NoGlueAs as = true → ArgsOK as
+  | .nil, _ => argsOK_nil
+  | .cons e es, h => by
+    simp only [NoGlueAs, Bool.and_eq_true] at h
+    exact argsOK_cons (good e h.1) (goodAs es h.2)
+theorem goodPs : ∀ (ps : Pseudos), NoGluePs ps = true → ∀ (as : Exprs), ArgsOK as → ItemsOK ps as
+  | .nil, _, _, ha => itemsOK_nil ha
+  | .cons k e ps, h, as, ha => by
+    simp only [NoGluePs, Bool.and_eq_true] at h
+    exact itemsOK_cons (good e h.1) (goodPs ps h.2 as ha)
+theorem goodCs : ∀ (cs : Cases), NoGlueCs cs = true → CasesOK cs
+  | .nil, _ => casesOK_nil
+  | .blank cs, h => casesOK_blank (goodCs cs (by simpa [NoGlueCs] using h))
+  | .some e cs, h => by
+    simp only [NoGlueCs, Bool.and_eq_true] at h
+    exact casesOK_some (good e h.1) (goodCs cs h.2)
+end
+
+/-! ## C08, expression layer: a printed expression parses back to the same tree -/
+
+/-- with explicit fuel -/
+theorem expr_print_parse_fuel (e : Expr) (h : NoGlue e = true) (fuel : Nat) (hf : cost e + 12 ≤ fuel) :
+    parseToksFuel fuel (printExpr e) = some (norm e) := by
+  have := (good e h).exprF fuel [] hf rfl
+  simp only [List.append_nil] at this
+  simp [parseToksFuel, printExpr, this]
+
+/-- where the parentheses are suppressed (right-hand side of an assignment, `if (..)`, `sin(..)`) -/
+theorem expr_print_parse_sup_fuel (e : Expr) (h : NoGlue e = true) (fuel : Nat) (hf : cost e + 12 ≤ fuel) :
+    parseToksFuel fuel (printE true e) = some (norm e) := by
+  have := (good e h).inner fuel [] hf rfl
+  simp only [List.append_nil] at this
+  simp [parseToksFuel, this]
+
+
+/-- The same inside any context that closes the expression: `)`, `,`, `]`, `;` or the end of the
+input (the interface for the statements that embed expressions: `x = e;`, `if (e)`, `f(e, ..)`,
+`interrupt[e]:`), with or without `SuppressParens`. -/
+theorem expr_print_parse_in_context (e : Expr) (h : NoGlue e = true) (sup : Bool) (fuel : Nat)
+    (hf : cost e + 12 ≤ fuel) (rest : List PTok) (hc : closes rest.head? = true) :
+    pExpr fuel (cl (printE sup e) ++ rest) = some (norm e, rest) := by
+  cases sup
+  · exact (good e h).exprF fuel rest hf hc
+  · exact (good e h).inner fuel rest hf hc
+
+/-! ## the fuel `parseExpr` supplies suffices -/
+
+theorem numToks_len (s : List Char) : 1 ≤ (numToks s).length := by
+  unfold numToks
+  split
+  · simp
+  · split <;> simp
+
+theorem varToks_len (v : Var) : 1 ≤ (varToks v).length := by
+  obtain ⟨sg, nm⟩ := v
+  cases nm <;> simp [varToks, nameToks, List.length_append] <;> omega
+
+theorem floatToks_len (neg : Bool) (b : FloatBody) : 1 ≤ (floatToks neg b).length := by
+  cases b <;> cases neg <;> simp [floatToks]
+
+theorem cost_pos (e : Expr) : 4 ≤ cost e := by
+  cases e <;> simp [cost] <;> omega
+
+theorem len_true_le_false (e : Expr) : (printE true e).length ≤ (printE false e).length := by
+  cases e <;> simp [printE, wrap]
+  all_goals first | omega | (split <;> simp)
+
+theorem casesT_len (cs : Cases) (h : cs.isNil = false) : 1 ≤ (printCasesT cs).length := by
+  cases cs <;> simp_all [printCasesT, Cases.isNil]
+
+mutual
+theorem cost_le : ∀ (e : Expr), NoGlue e = true → cost e ≤ 40 * (printE true e).length
+  | .ternary c l r, h => by
+    simp only [NoGlue, Bool.and_eq_true] at h
+    have h1 := cost_le c h.1.1; have h2 := cost_le l h.1.2; have h3 := cost_le r h.2
+    have g1 := len_true_le_false c; have g2 := len_true_le_false l; have g3 := len_true_le_false r
+    simp only [cost, printE, wrap, if_true, List.length_append, List.length_cons]
+    omega
+  | .binop a op b, h => by
+    simp only [NoGlue, Bool.and_eq_true] at h
+    have h1 := cost_le a h.1; have h2 := cost_le b h.2
+    have g1 := len_true_le_false a; have g2 := len_true_le_false b
+    simp only [cost, printE, wrap, if_true, List.length_append, List.length_cons]
+    omega
+  | .unop op x, h => by
+    simp only [NoGlue, Bool.and_eq_true] at h
+    have h1 := cost_le x h.1
+    have g1 := len_true_le_false x
+    simp only [cost, printE]
+    split <;> simp only [wrap, if_true, List.length_append, List.length_cons, List.length_nil] <;> omega
+  | .xcrement pre inc v, _ => by
+    have := varToks_len v
+    simp only [cost, printE]
+    split <;> simp only [List.length_append, List.length_cons, List.length_nil] <;> omega
+  | .var v, _ => by
+    have := varToks_len v
+    simp only [cost, printE]; omega
+  | .call name ps as, h => by
+    simp only [NoGlue, Bool.and_eq_true] at h
+    have h1 := costPs_le ps h.1.2 as.isNil (printArgs as) (costAs as) (costAs_le as h.2)
+    simp only [cost, printE, List.length_append, List.length_cons, List.length_nil]
+    omega
+  | .diffSwitch (.some e cs), h => by
+    simp only [NoGlue, Bool.and_eq_true, Bool.not_eq_true'] at h
+    have h1 := cost_le e h.1.1; have g1 := len_true_le_false e
+    have h2 := costCs_le cs h.2
+    have h3 := casesT_len cs h.1.2
+    have h4 := cost_pos e
+    simp only [cost, costCs, printE, printCases, wrap, if_true, List.length_append]
+    omega
+  | .diffSwitch .nil, h => by simp [NoGlue] at h
+  | .diffSwitch (.blank _), h => by simp [NoGlue] at h
+  | .litInt v f, _ => by
+    have := numToks_len (printInt f v)
+    simp only [cost, printE]; omega
+  | .litFloat neg b, _ => by
+    have := floatToks_len neg b
+    simp only [cost, printE]; omega
+  | .litString s, _ => by simp [cost, printE]
+  | .labelProp kw l, _ => by simp [cost, printE]
+  | .enumConst en id, _ => by simp [cost, printE]
+theorem costAs_le : ∀ (as : Exprs), NoGlueAs as = true → costAs as ≤ 40 * (printArgs as).length + 21
+  | .nil, _ => by simp [costAs]
+  | .cons e es, h => by
+    simp only [NoGlueAs, Bool.and_eq_true] at h
+    have h1 := cost_le e h.1; have g1 := len_true_le_false e; have h4 := cost_pos e
+    have h2 := costAs_le es h.2
+    simp only [costAs, printArgs, List.length_append]
+    omega
+theorem costPs_le : ∀ (ps : Pseudos), NoGluePs ps = true → ∀ (b : Bool) (t : List Tok) (c : Nat),
+    c ≤ 40 * t.length + 21 → costPs ps c ≤ 40 * (printItems ps b t).length + 21
+  | .nil, _, _, _, _, hc => by simpa [costPs, printItems] using hc
+  | .cons k e ps, h, b, t, c, hc => by
+    simp only [NoGluePs, Bool.and_eq_true] at h
+    have h1 := cost_le e h.1; have g1 := len_true_le_false e
+    have h2 := costPs_le ps h.2 b t c hc
+    simp only [costPs, printItems, List.length_append, List.length_cons]
+    omega
+theorem costCs_le : ∀ (cs : Cases), NoGlueCs cs = true → costCs cs ≤ 40 * (printCasesT cs).length + 1
+  | .nil, _ => by simp [costCs]
+  | .blank cs, h => by
+    have h2 := costCs_le cs (by simpa [NoGlueCs] using h)
+    simp only [costCs, printCasesT, List.length_cons]
+    omega
+  | .some e cs, h => by
+    simp only [NoGlueCs, Bool.and_eq_true] at h
+    have h1 := cost_le e h.1; have g1 := len_true_le_false e
+    have h2 := costCs_le cs h.2
+    simp only [costCs, printCasesT, List.length_append, List.length_cons]
+    omega
+end
+
+theorem fuel_suffices (e : Expr) (h : NoGlue e = true) : cost e + 12 ≤ fuelFor (printExpr e) := by
+  have h1 := cost_le e h
+  have h2 := len_true_le_false e
+  simp only [fuelFor, printExpr]
+  omega
+
+theorem fuel_suffices_sup (e : Expr) (h : NoGlue e = true) : cost e + 12 ≤ fuelFor (printE true e) := by
+  have h1 := cost_le e h
+  simp only [fuelFor]
+  omega
+
+/-- **C08, expressions: printed tokens parse back to the same tree.**  For every expression
+without a glue site, the parser accepts the tokens the formatter writes and builds the same
+expression up to `norm`: same operators with the same grouping (every nested operator comes back
+under the same parent because the printer parenthesises it), same calls, arguments, switch cases
+with the same holes, same variables, same literals. -/
+theorem expr_print_parse (e : Expr) (h : NoGlue e = true) : parseExpr (printExpr e) = some (norm e) :=
+  expr_print_parse_fuel e h _ (fuel_suffices e h)
+
+/-- the same where `SuppressParens` is in effect (no outer parentheses are written) -/
+theorem expr_print_parse_sup (e : Expr) (h : NoGlue e = true) : parseExpr (printE true e) = some (norm e) :=
+  expr_print_parse_sup_fuel e h _ (fuel_suffices_sup e h)
+
+/-! ## tokens and text -/
+
+theorem toksOf_append (a b : List EP) : toksOf (a ++ b) = toksOf a ++ toksOf b := by
+  induction a with
+  | nil => rfl
+  | cons x xs ih => cases x <;> simp [toksOf, ih]
+
+theorem toksOf_ts (l : List Tok) : toksOf (ts l) = l := by
+  induction l with
+  | nil => rfl
+  | cons x xs ih => simpa [ts, toksOf] using ih
+
+theorem toksOf_wrapP (sup : Bool) (ps : List EP) : toksOf (wrapP sup ps) = wrap sup (toksOf ps) := by
+  cases sup <;> simp [wrapP, wrap, toksOf, toksOf_append]
+
+mutual
+/-- the pieces with the white space removed are the tokens -/
+theorem toksOf_printP : ∀ (e : Expr) (sup : Bool), toksOf (printP sup e) = printE sup e
+  | .ternary c l r, sup => by
+    simp [printP, printE, toksOf_wrapP, toksOf_append, toksOf, toksOf_printP c, toksOf_printP l, toksOf_printP r]
+  | .binop a op b, sup => by
+    simp [printP, printE, toksOf_wrapP, toksOf_append, toksOf, toksOf_printP a, toksOf_printP b]
+  | .unop op x, sup => by
+    simp only [printP, printE]
+    split <;> simp [toksOf_wrapP, toksOf_append, toksOf, toksOf_printP x]
+  | .xcrement pre inc v, sup => by simp [printP, printE, toksOf_ts]
+  | .var v, sup => by simp [printP, printE, toksOf_ts]
+  | .call name ps as, sup => by
+    simp [printP, printE, toksOf, toksOf_append, toksOf_printItemsP ps as.isNil _ _ (toksOf_printArgsP as)]
+  | .diffSwitch cs, sup => by
+    simp only [printP, printE, toksOf_wrapP, toksOf_append, toksOf_printCasesP cs]
+    split <;> split <;> simp [toksOf]
+  | .litInt v f, sup => by simp [printP, printE, toksOf_ts]
+  | .litFloat neg b, sup => by simp [printP, printE, toksOf_ts]
+  | .litString s, sup => by simp [printP, printE, toksOf]
+  | .labelProp kw l, sup => by simp [printP, printE, toksOf_ts]
+  | .enumConst en id, sup => by simp [printP, printE, toksOf_ts]
+theorem toksOf_printItemsP : ∀ (ps : Pseudos) (b : Bool) (tp : List EP) (t : List Tok), toksOf tp = t →
+    toksOf (printItemsP ps b tp) = printItems ps b t
+  | .nil, _, _, _, h => by simpa [printItemsP, printItems] using h
+  | .cons k e ps, b, tp, t, h => by
+    simp only [printItemsP, printItems, toksOf, toksOf_append, toksOf_printP e, toksOf_printItemsP ps b tp t h]
+    split <;> simp [toksOf]
+theorem toksOf_printArgsP : ∀ (as : Exprs), toksOf (printArgsP as) = printArgs as
+  | .nil => rfl
+  | .cons e es => by
+    simp only [printArgsP, printArgs, toksOf_append, toksOf_printP e, toksOf_printArgsP es]
+    split <;> simp [toksOf]
+theorem toksOf_printCasesP : ∀ (cs : Cases), toksOf (printCasesP cs) = printCases cs
+  | .nil => rfl
+  | .blank cs => by simp [printCasesP, printCases, toksOf_printCasesTP cs]
+  | .some e cs => by simp [printCasesP, printCases, toksOf_append, toksOf_printP e, toksOf_printCasesTP cs]
+theorem toksOf_printCasesTP : ∀ (cs : Cases), toksOf (printCasesTP cs) = printCasesT cs
+  | .nil => rfl
+  | .blank cs => by simp [printCasesTP, printCasesT, toksOf, toksOf_printCasesTP cs]
+  | .some e cs => by simp [printCasesTP, printCasesT, toksOf, toksOf_append, toksOf_printP e, toksOf_printCasesTP cs]
+end
+
+/-- The joined text lexes to the tokens that were written.  This is what fails at a glue site;
+the correspondence check evaluates it on every generated expression. -/
+def LexOK (e : Expr) : Prop := lex (printText e) = (printExpr e, .eof)
+
+instance (e : Expr) : Decidable (LexOK e) := by unfold LexOK; exact inferInstance
+
+/-- **C08, expressions, on text**: when the written tokens survive the lexer, the printed text
+parses back to the same tree. -/
+theorem expr_print_parse_text (e : Expr) (h : NoGlue e = true) (hl : LexOK e) :
+    parseText (printText e) = some (norm e) := by
+  unfold parseText
+  rw [hl]
+  exact expr_print_parse e h
+
+
+/-! ## printing again -/
+
+/- `HintFree`: every integer literal carries the format the parser assigns (`SIGNED`): the radix
+of a decompiled literal is a hint that the text does not carry -/
+mutual
+def HintFree : Expr → Bool
+  | .ternary c l r => HintFree c && HintFree l && HintFree r
+  | .binop a _ b => HintFree a && HintFree b
+  | .unop _ x => HintFree x
+  | .call _ ps as => HintFreePs ps && HintFreeAs as
+  | .diffSwitch cs => HintFreeCs cs
+  | .litInt _ f => f == signedDec
+  | _ => true
+def HintFreePs : Pseudos → Bool
+  | .nil => true
+  | .cons _ e ps => HintFree e && HintFreePs ps
+def HintFreeAs : Exprs → Bool
+  | .nil => true
+  | .cons e es => HintFree e && HintFreeAs es
+def HintFreeCs : Cases → Bool
+  | .nil => true
+  | .blank cs => HintFreeCs cs
+  | .some e cs => HintFree e && HintFreeCs cs
+end
+
+theorem normInt_signedDec (v : Int32) (h : (printInt signedDec v).head? ≠ some '-') :
+    normInt v signedDec = .litInt v signedDec := by
+  have hn : ¬ v.toInt < 0 := by
+    intro hv
+    exact h ((printInt_head_minus_iff signedDec v).mpr ⟨rfl, hv⟩)
+  simp [normInt, signedDec, hn]
+
+mutual
+theorem print_norm : ∀ (e : Expr) (sup : Bool), NoNegLit e = true → HintFree e = true →
+    printE sup (norm e) = printE sup e
+  | .ternary c l r, sup, h, g => by
+    simp only [NoNegLit, HintFree, Bool.and_eq_true] at h g
+    simp [norm, printE, print_norm c false h.1.1 g.1.1, print_norm l false h.1.2 g.1.2, print_norm r false h.2 g.2]
+  | .binop a op b, sup, h, g => by
+    simp only [NoNegLit, HintFree, Bool.and_eq_true] at h g
+    simp [norm, printE, print_norm a false h.1 g.1, print_norm b false h.2 g.2]
+  | .unop op x, sup, h, g => by
+    simp only [NoNegLit, HintFree] at h g
+    simp [norm, printE, print_norm x false h g, print_norm x true h g]
+  | .xcrement pre inc v, sup, _, _ => rfl
+  | .var v, sup, _, _ => rfl
+  | .call name ps as, sup, h, g => by
+    simp only [NoNegLit, HintFree, Bool.and_eq_true] at h g
+    have h1 := print_normAs as h.2 g.2
+    have h2 := print_normPs ps h.1 g.1 (normAs as).isNil (printArgs (normAs as))
+    have h3 : (normAs as).isNil = as.isNil := by cases as <;> rfl
+    simp only [norm, printE, h2]
+    rw [h1, h3]
+  | .diffSwitch cs, sup, h, g => by
+    simp only [NoNegLit, HintFree] at h g
+    have h1 := print_normCs cs h g
+    have h2 := print_normCsT cs h g
+    cases cs <;> simp_all [norm, normCs, printE, printCases]
+  | .litInt v f, sup, h, g => by
+    have hf : f = signedDec := by simpa [HintFree] using g
+    subst hf
+    have hh : (printInt signedDec v).head? ≠ some '-' := by simpa [NoNegLit, negLit] using h
+    simp [norm, normInt_signedDec v hh]
+  | .litFloat neg b, sup, h, _ => by
+    cases b <;> cases neg <;> simp_all [NoNegLit, negLit, norm, normFloat, wrapNeg, printE, floatToks, varToks, sigilToks, nameToks]
+  | .litString s, sup, _, _ => rfl
+  | .labelProp kw l, sup, _, _ => rfl
+  | .enumConst en id, sup, _, _ => rfl
+theorem print_normPs : ∀ (ps : Pseudos), NoNegLitPs ps = true → HintFreePs ps = true → ∀ (b : Bool) (t : List Tok),
+    printItems (normPs ps) b t = printItems ps b t
+  | .nil, _, _, _, _ => rfl
+  | .cons k e ps, h, g, b, t => by
+    simp only [NoNegLitPs, HintFreePs, Bool.and_eq_true] at h g
+    have h3 : (normPs ps).isNil = ps.isNil := by cases ps <;> rfl
+    simp [normPs, printItems, print_norm e false h.1 g.1, print_normPs ps h.2 g.2 b t, h3]
+theorem print_normAs : ∀ (as : Exprs), NoNegLitAs as = true → HintFreeAs as = true →
+    printArgs (normAs as) = printArgs as
+  | .nil, _, _ => rfl
+  | .cons e es, h, g => by
+    simp only [NoNegLitAs, HintFreeAs, Bool.and_eq_true] at h g
+    have h3 : (normAs es).isNil = es.isNil := by cases es <;> rfl
+    simp [normAs, printArgs, print_norm e false h.1 g.1, print_normAs es h.2 g.2, h3]
+theorem print_normCs : ∀ (cs : Cases), NoNegLitCs cs = true → HintFreeCs cs = true →
+    printCases (normCs cs) = printCases cs
+  | .nil, _, _ => rfl
+  | .blank cs, h, g => by
+    simp only [NoNegLitCs, HintFreeCs] at h g
+    simp [normCs, printCases, print_normCsT cs h g]
+  | .some e cs, h, g => by
+    simp only [NoNegLitCs, HintFreeCs, Bool.and_eq_true] at h g
+    simp [normCs, printCases, print_norm e false h.1 g.1, print_normCsT cs h.2 g.2]
+theorem print_normCsT : ∀ (cs : Cases), NoNegLitCs cs = true → HintFreeCs cs = true →
+    printCasesT (normCs cs) = printCasesT cs
+  | .nil, _, _ => rfl
+  | .blank cs, h, g => by
+    simp only [NoNegLitCs, HintFreeCs] at h g
+    simp [normCs, printCasesT, print_normCsT cs h g]
+  | .some e cs, h, g => by
+    simp only [NoNegLitCs, HintFreeCs, Bool.and_eq_true] at h g
+    simp [normCs, printCasesT, print_norm e false h.1 g.1, print_normCsT cs h.2 g.2]
+end
+
+/-- **C08, expressions: printing the re-parsed expression gives the same tokens again**, for
+expressions whose literals print without a sign and carry no radix hint (what the parser builds
+from text without `-` glued literals). -/
+theorem expr_print_idempotent (e : Expr) (h : NoNegLit e = true) (g : HintFree e = true) :
+    printExpr (norm e) = printExpr e := print_norm e false h g
+
+/-- print, parse, print: the text of the second print equals the first, and it parses again to
+the same tree -/
+theorem expr_print_parse_print (e : Expr) (hg : NoGlue e = true) (h : NoNegLit e = true) (g : HintFree e = true) :
+    ∃ e', parseExpr (printExpr e) = some e' ∧ printExpr e' = printExpr e ∧ parseExpr (printExpr e') = some e' := by
+  refine ⟨norm e, expr_print_parse e hg, expr_print_idempotent e h g, ?_⟩
+  rw [expr_print_idempotent e h g]
+  exact expr_print_parse e hg
+
+
+
+
+/-! ## layout of expressions: the width changes only white space and trailing commas -/
+
+theorem ess_xw (st : LSt) (p : Piece) : ess (xw st p).out = ess st.out ++ ess [p] := by
+  unfold xw
+  split <;> simp [ess]
+
+mutual
+theorem xinl_ess (tw : Nat) : ∀ (d : XDoc) (st st' : LSt), xinl tw d st = some st' →
+    ess st'.out = ess st.out ++ d.toks
+  | .tok k, st, st', h => by
+    simp only [xinl, Option.some.injEq] at h
+    subst h
+    simp [ess_xw, ess_tok, XDoc.toks]
+  | .sp, st, st', h => by
+    simp only [xinl, Option.some.injEq] at h
+    subst h
+    simp [ess_xw, ess_space, XDoc.toks]
+  | .args items, st, st', h => by
+    simp only [xinl] at h
+    split at h
+    · simp at h
+    · rename_i st1 h1
+      have ih := xinlItems_ess tw items true _ _ h1
+      split at h
+      · simp at h
+      · simp only [Option.some.injEq] at h
+        subst h
+        simp [ess_xw, ess_tok, ih, XDoc.toks]
+  | .seq ds, st, st', h => by
+    simp only [xinl] at h
+    simpa [XDoc.toks] using xinlSeq_ess tw ds st st' h
+theorem xinlItems_ess (tw : Nat) : ∀ (ds : XDocs) (first : Bool) (st st' : LSt), xinlItems tw ds first st = some st' →
+    ess st'.out = ess st.out ++ ds.toksItems first
+  | .nil, first, st, st', h => by
+    simp only [xinlItems, Option.some.injEq] at h
+    subst h
+    simp [XDocs.toksItems]
+  | .cons d ds, first, st, st', h => by
+    simp only [xinlItems] at h
+    split at h
+    · simp at h
+    · rename_i st1 h1
+      have ih1 := xinl_ess tw d _ _ h1
+      split at h
+      · simp at h
+      · have ih2 := xinlItems_ess tw ds false _ _ h
+        rw [ih2, ih1]
+        cases first <;> simp [ess_xw, ess_comma, ess_space, XDocs.toksItems]
+theorem xinlSeq_ess (tw : Nat) : ∀ (ds : XDocs) (st st' : LSt), xinlSeq tw ds st = some st' →
+    ess st'.out = ess st.out ++ ds.toksSeq
+  | .nil, st, st', h => by
+    simp only [xinlSeq, Option.some.injEq] at h
+    subst h
+    simp [XDocs.toksSeq]
+  | .cons d ds, st, st', h => by
+    simp only [xinlSeq] at h
+    split at h
+    · simp at h
+    · rename_i st1 h1
+      have ih1 := xinl_ess tw d _ _ h1
+      have ih2 := xinlSeq_ess tw ds _ _ h
+      rw [ih2, ih1]
+      simp [XDocs.toksSeq]
+end
+
+/-- the items with the separators written the way the block style writes them -/
+def xtoksSep : XDocs → List Piece
+  | .nil => []
+  | .cons d ds => d.toks ++ (if ds.isNil then [] else [.comma]) ++ xtoksSep ds
+
+theorem xtoks_eq_toksSep : ∀ (ds : XDocs),
+    ds.toksItems true = xtoksSep ds ∧ ds.toksItems false = (if ds.isNil then [] else .comma :: xtoksSep ds)
+  | .nil => by simp [XDocs.toksItems, xtoksSep, XDocs.isNil]
+  | .cons d .nil => by simp [XDocs.toksItems, xtoksSep, XDocs.isNil]
+  | .cons d (.cons d' ds') => by
+    have ih := xtoks_eq_toksSep (.cons d' ds')
+    have h2 : (XDocs.cons d' ds').toksItems false = .comma :: xtoksSep (.cons d' ds') := by simpa [XDocs.isNil] using ih.2
+    constructor
+    · rw [xtoksSep, XDocs.toksItems, h2]; simp [XDocs.isNil]
+    · rw [xtoksSep, XDocs.toksItems, h2]; simp [XDocs.isNil]
+
+mutual
+theorem xblk_ess (tw : Nat) : ∀ (d : XDoc) (st : LSt), ess (xblk tw d st).out = ess st.out ++ d.toks
+  | .tok k, st => by simp [xblk, ess_xw, ess_tok, XDoc.toks]
+  | .sp, st => by simp [xblk, ess_xw, ess_space, XDoc.toks]
+  | .args items, st => by
+    simp only [xblk]
+    split
+    · rename_i st' h
+      exact xinl_ess tw _ _ _ h
+    · rw [ess_xw, ess_tok, ess_with_indent, xblkItems_ess tw items, ess_with_indent, ess_newline, ess_xw, ess_tok]
+      simp [XDoc.toks, (xtoks_eq_toksSep items).1]
+  | .seq ds, st => by
+    simp only [xblk]
+    simpa [XDoc.toks] using xblkSeq_ess tw ds st
+theorem xblkItems_ess (tw : Nat) : ∀ (ds : XDocs) (st : LSt), ess (xblkItems tw ds st).out = ess st.out ++ xtoksSep ds
+  | .nil, st => by simp [xblkItems, xtoksSep]
+  | .cons d ds, st => by
+    simp only [xblkItems]
+    rw [xblkItems_ess tw ds, ess_newline, ess_xw, xblk_ess tw d]
+    cases h : ds.isNil <;> simp [xtoksSep, ess_comma, ess_tcomma, h]
+theorem xblkSeq_ess (tw : Nat) : ∀ (ds : XDocs) (st : LSt), ess (xblkSeq tw ds st).out = ess st.out ++ ds.toksSeq
+  | .nil, st => by simp [xblkSeq, XDocs.toksSeq]
+  | .cons d ds, st => by
+    simp only [xblkSeq]
+    rw [xblkSeq_ess tw ds, xblk_ess tw d]
+    simp [XDocs.toksSeq]
+end
+
+/-- **layout of an expression changes only white space and trailing commas**: at every width the
+rendered pieces contain the same tokens and separating commas -/
+theorem expr_layout_tokens (w : Nat) (e : Expr) : ess (renderExprPieces w e) = (exprDocs false e).toksSeq := by
+  unfold renderExprPieces
+  rw [xblkSeq_ess]
+  simp [LSt.init, ess]
+
+theorem expr_layout_width_independent (w w' : Nat) (e : Expr) :
+    ess (renderExprPieces w e) = ess (renderExprPieces w' e) := by
+  rw [expr_layout_tokens, expr_layout_tokens]
+
+
+
+/-! ## the laid-out tokens are the tokens of `printE` -/
+
+/-- a separating comma as the token it is -/
+def commaTok (ps : List Piece) : List Piece :=
+  ps.map fun p => match p with
+    | .comma => .tok [',']
+    | p => p
+
+def tokTexts (l : List Tok) : List Piece := l.map fun t => .tok (tokChars t)
+
+theorem commaTok_append (a b : List Piece) : commaTok (a ++ b) = commaTok a ++ commaTok b := by simp [commaTok]
+theorem tokTexts_append (a b : List Tok) : tokTexts (a ++ b) = tokTexts a ++ tokTexts b := by simp [tokTexts]
+theorem tokTexts_cons (t : Tok) (b : List Tok) : tokTexts (t :: b) = .tok (tokChars t) :: tokTexts b := by simp [tokTexts]
+@[simp] theorem tokTexts_nil : tokTexts [] = [] := rfl
+@[simp] theorem commaTok_nil : commaTok [] = [] := rfl
+
+theorem commaTok_cons_tok (s : List Char) (r : List Piece) : commaTok (.tok s :: r) = .tok s :: commaTok r := by
+  simp [commaTok]
+
+theorem toksSeq_append : ∀ (a b : XDocs), (a.append b).toksSeq = a.toksSeq ++ b.toksSeq
+  | .nil, b => by simp [XDocs.append, XDocs.toksSeq]
+  | .cons d ds, b => by simp [XDocs.append, XDocs.toksSeq, toksSeq_append ds b]
+
+theorem toksSeq_ofToks : ∀ (l : List Tok), commaTok (XDocs.ofToks l).toksSeq = tokTexts l
+  | [] => rfl
+  | t :: r => by
+    have := toksSeq_ofToks r
+    simp [XDocs.ofToks, XDocs.toksSeq, XDoc.toks, commaTok, tokTexts] at this ⊢
+    exact this
+
+theorem toksSeq_wrapD (sup : Bool) (ds : XDocs) (l : List Tok) (h : commaTok ds.toksSeq = tokTexts l) :
+    commaTok (wrapD sup ds).toksSeq = tokTexts (wrap sup l) := by
+  cases sup
+  · simp only [wrapD, wrap, Bool.false_eq_true, if_false, XDocs.toksSeq, XDoc.toks, toksSeq_append, commaTok_append,
+      commaTok_cons_tok, commaTok_nil, List.cons_append, List.nil_append, List.append_nil, tokTexts_cons, tokTexts_append,
+      tokTexts_nil, h]
+  · simpa [wrapD, wrap] using h
+
+theorem toksSeq_spTokSp (t : Tok) (rest : XDocs) : (spTokSp t rest).toksSeq = .tok (tokChars t) :: rest.toksSeq := by
+  simp [spTokSp, XDocs.toksSeq, XDoc.toks]
+
+
+theorem argDocs_isNil (as : Exprs) : (argDocs as).isNil = as.isNil := by cases as <;> rfl
+theorem itemDocs_isNil (ps : Pseudos) (rest : XDocs) : (itemDocs ps rest).isNil = (ps.isNil && rest.isNil) := by
+  cases ps <;> simp [itemDocs, XDocs.isNil, Pseudos.isNil]
+
+mutual
+theorem docs_toks : ∀ (e : Expr) (sup : Bool), commaTok (exprDocs sup e).toksSeq = tokTexts (printE sup e)
+  | .ternary c l r, sup => by
+    simp only [exprDocs, printE]
+    apply toksSeq_wrapD
+    simp [toksSeq_append, toksSeq_spTokSp, commaTok_append, commaTok_cons_tok, tokTexts_append, tokTexts_cons,
+      docs_toks c false, docs_toks l false, docs_toks r false]
+  | .binop a op b, sup => by
+    simp only [exprDocs, printE]
+    apply toksSeq_wrapD
+    simp [toksSeq_append, toksSeq_spTokSp, commaTok_append, commaTok_cons_tok, tokTexts_append, tokTexts_cons,
+      docs_toks a false, docs_toks b false]
+  | .unop op x, sup => by
+    simp only [exprDocs, printE]
+    split
+    · apply toksSeq_wrapD
+      simp [XDocs.toksSeq, XDoc.toks, commaTok_cons_tok, tokTexts_cons, docs_toks x false]
+    · simp only [XDocs.toksSeq, XDoc.toks, toksSeq_append, commaTok_append, commaTok_cons_tok, commaTok_nil, tokTexts_append,
+        tokTexts_cons, tokTexts_nil, docs_toks x true, List.cons_append, List.nil_append, List.append_nil]
+  | .xcrement pre inc v, sup => by simp only [exprDocs, printE]; exact toksSeq_ofToks _
+  | .var v, sup => by simp only [exprDocs, printE]; exact toksSeq_ofToks _
+  | .call name ps as, sup => by
+    have h := items_toks ps (argDocs as) (printArgs as) as.isNil (args_toks as) (argDocs_isNil as)
+    simp only [exprDocs, printE, XDocs.toksSeq, XDoc.toks, (xtoks_eq_toksSep _).1]
+    simp only [commaTok_append, commaTok_cons_tok, commaTok_nil, tokTexts_append, tokTexts_cons, tokTexts_nil, h,
+      List.cons_append, List.nil_append, List.append_nil]
+    rfl
+  | .diffSwitch cs, sup => by
+    simp only [exprDocs, printE]
+    apply toksSeq_wrapD
+    have h := cases_toks cs
+    split <;> split <;> simp [toksSeq_append, XDocs.toksSeq, XDoc.toks, h]
+  | .litInt v f, sup => by simp only [exprDocs, printE]; exact toksSeq_ofToks _
+  | .litFloat neg b, sup => by simp only [exprDocs, printE]; exact toksSeq_ofToks _
+  | .litString s, sup => by simp [exprDocs, printE, XDocs.toksSeq, XDoc.toks, commaTok, tokTexts]
+  | .labelProp kw l, sup => by simp only [exprDocs, printE]; exact toksSeq_ofToks _
+  | .enumConst en id, sup => by simp only [exprDocs, printE]; exact toksSeq_ofToks _
+theorem args_toks : ∀ (as : Exprs), commaTok (xtoksSep (argDocs as)) = tokTexts (printArgs as)
+  | .nil => rfl
+  | .cons e es => by
+    simp only [argDocs, xtoksSep, printArgs, argDocs_isNil, XDoc.toks, commaTok_append, tokTexts_append,
+      docs_toks e false, args_toks es]
+    cases es <;> simp [Exprs.isNil, commaTok, tokTexts, tokChars, tComma]
+theorem items_toks : ∀ (ps : Pseudos) (rest : XDocs) (t : List Tok) (b : Bool),
+    commaTok (xtoksSep rest) = tokTexts t → rest.isNil = b →
+    commaTok (xtoksSep (itemDocs ps rest)) = tokTexts (printItems ps b t)
+  | .nil, rest, t, b, h, _ => by simpa [itemDocs, printItems] using h
+  | .cons k e ps, rest, t, b, h, hb => by
+    simp only [itemDocs, xtoksSep, printItems, itemDocs_isNil, hb, XDoc.toks, XDocs.toksSeq, commaTok_append,
+      commaTok_cons_tok, tokTexts_append, tokTexts_cons, docs_toks e false, items_toks ps rest t b h hb, List.cons_append,
+      List.nil_append, List.append_assoc]
+    cases h : (ps.isNil && b) <;> simp [commaTok, tokTexts, tokChars, tComma, tAt, tAssign]
+theorem cases_toks : ∀ (cs : Cases), commaTok (caseDocs cs).toksSeq = tokTexts (printCases cs)
+  | .nil => rfl
+  | .blank cs => by simpa [caseDocs, printCases] using casesT_toks cs
+  | .some e cs => by
+    simp [caseDocs, printCases, toksSeq_append, commaTok_append, tokTexts_append, docs_toks e false, casesT_toks cs]
+theorem casesT_toks : ∀ (cs : Cases), commaTok (caseDocsT cs).toksSeq = tokTexts (printCasesT cs)
+  | .nil => rfl
+  | .blank cs => by
+    simp [caseDocsT, printCasesT, toksSeq_spTokSp, commaTok_cons_tok, tokTexts_cons, casesT_toks cs]
+  | .some e cs => by
+    simp [caseDocsT, printCasesT, toksSeq_spTokSp, toksSeq_append, commaTok_append, commaTok_cons_tok, tokTexts_append,
+      tokTexts_cons, docs_toks e false, casesT_toks cs]
+end
+
+/-- **C08, expressions at every width**: whatever the target width, the tokens of the laid-out
+expression (inline or block argument lists; the trailing commas of the block style dropped, as the
+grammar's `SeparatedTrailing` allows) are the tokens `printExpr e` that `expr_print_parse` is about. -/
+theorem expr_layout_printExpr (w : Nat) (e : Expr) :
+    commaTok (ess (renderExprPieces w e)) = tokTexts (printExpr e) := by
+  rw [expr_layout_tokens]
+  exact docs_toks e false
+
+
+/-! ## examples and the glue sites -/
+
+section examples
+def vx : Expr := .var { sigil := none, name := .normal ['x'] }
+def vI0 : Expr := .var { sigil := some .int, name := .reg (-10001) }
+/-- `(x + ((3 * -4) << $REG[-10001]))` -/
+def ex1 : Expr := .binop vx .add (.binop (.binop (.litInt 3 signedDec) .mul (.litInt (-4) signedDec)) .shl vI0)
+/-- `((!x) ? (x :  : 0x7 :  ) : ins_23(@mask=0b101, sin(x - x), %REG[5]++))` -/
+def ex2 : Expr :=
+  .ternary (.unop .not vx)
+    (.diffSwitch (.some vx (.blank (.some (.litInt 7 ⟨false, .hex⟩) (.blank .nil)))))
+    (.call (.ins 23) (.cons .mask (.litInt 5 ⟨false, .bin⟩) .nil)
+      (.cons (.unop .sin (.binop vx .sub vx)) (.cons (.xcrement false true ⟨some .float, .reg 5⟩) .nil)))
+
+example : NoGlue ex1 = true ∧ printText ex1 = "(x + ((3 * -4) << $REG[-10001]))".toList := by decide +kernel
+example : NoGlue ex2 = true ∧
+    printText ex2 = "((!x) ? (x :  : 0x7 :  ) : ins_23(@mask=0b101, sin(x - x), %REG[5]++))".toList := by decide +kernel
+example : LexOK ex1 := by decide +kernel
+example : parseText (printText ex1) = some (norm ex1) := by decide +kernel
+example : parseExpr (printExpr ex2) = some (norm ex2) ∧ norm ex2 ≠ ex2 := by decide +kernel
+/-- `(x * f(3, (!x)))`: inside the fragment of `expr_print_idempotent` / `expr_print_parse_print` -/
+def ex3 : Expr := .binop vx .mul (.call (.normal ['f']) .nil (.cons (.litInt 3 signedDec) (.cons (.unop .not vx) .nil)))
+example : NoGlue ex3 = true ∧ NoNegLit ex3 = true ∧ HintFree ex3 = true ∧ norm ex3 = ex3 ∧
+    printExpr (norm ex3) = printExpr ex3 := by decide +kernel
+
+/-- grouping is kept: the two ways of nesting the same operators print and parse differently -/
+example : parseText "((a - b) - c)".toList ≠ parseText "(a - (b - c))".toList ∧
+    parseText "a - b - c".toList = parseText "((a - b) - c)".toList ∧
+    parseText "a + b * c".toList = parseText "(a + (b * c))".toList ∧
+    parseText "a ? b : c ? d : e".toList = parseText "(a ? b : (c ? d : e))".toList ∧
+    parseText "a ? b : c : d".toList = none ∧ parseText "a : b ? c : d".toList = none ∧
+    parseText "- -x".toList = none ∧ parseText "-(-x)".toList ≠ none := by decide +kernel
+end examples
+
+/-- **The glue sites, on the expression level** (known findings "operator-glued-to-operand"):
+each conjunct is an expression outside `NoGlue` whose printed text does not parse back.
+`-(-3)` and `-(--x)` print `(--3)` / `(---x)`; `~(-1)` prints `(~-1)` (two prefix operators);
+`!Enemy` / `!4` / `!(-1)` print a `DifficultyStr` token.  For `-(--x)` the tokens that were
+written would parse (`expr tokens`), it is the lexer that fuses them: `LexOK` fails. -/
+theorem glue_sites_fail :
+    let neg3 : Expr := .litInt (-3) signedDec
+    let predec : Expr := .xcrement true false { sigil := none, name := .normal ['x'] }
+    (NoGlue (.unop .neg neg3) = false ∧ printText (.unop .neg neg3) = "(--3)".toList ∧
+      parseText (printText (.unop .neg neg3)) = none) ∧
+    (NoGlue (.unop .neg predec) = false ∧ printText (.unop .neg predec) = "(---x)".toList ∧
+      parseText (printText (.unop .neg predec)) = none ∧
+      parseExpr (printExpr (.unop .neg predec)) = some (.unop .neg predec) ∧ ¬ LexOK (.unop .neg predec)) ∧
+    (NoGlue (.unop .bitNot neg3) = false ∧ parseText (printText (.unop .bitNot neg3)) = none) ∧
+    (NoGlue (.unop .not neg3) = false ∧ parseText (printText (.unop .not neg3)) = none) ∧
+    (NoGlue (.unop .not (.litInt 4 signedDec)) = false ∧ parseText (printText (.unop .not (.litInt 4 signedDec))) = none) ∧
+    (NoGlue (.unop .not (.var { sigil := none, name := .normal "Enemy".toList })) = false ∧
+      parseText (printText (.unop .not (.var { sigil := none, name := .normal "Enemy".toList }))) = none) := by
+  decide +kernel
+
+/-- a negative literal reads back as the operator applied to the magnitude, and printing that
+adds parentheses (known finding "negative-literal-gains-parens"): idempotence needs `NoNegLit` -/
+theorem negative_literal_gains_parens :
+    parseText (printText (.litInt (-3) signedDec)) = some (.unop .neg (.litInt 3 signedDec)) ∧
+    printText (.litInt (-3) signedDec) = "-3".toList ∧
+    printText (.unop .neg (.litInt 3 signedDec)) = "(-3)".toList ∧
+    NoNegLit (.litInt (-3) signedDec) = false := by decide +kernel
+
+/-! ## the full property (not proved: the statement grammar and floats are searched) -/
 
 /-- The statement of C08 over an abstract script type: `print w` at every width is accepted by
 `parse` and denotes the same script, and printing again reproduces the text.  The theorems above
@@ -845,14 +2462,20 @@ def printed_scripts_parse_back_full {Script : Type} (print : Nat → Script → 
   ∀ (w : Nat) (x : Script), ∃ y, parse (print w x) = some y ∧ denote y = denote x ∧ print w y = print w x
 
 /-- What is proved of `printed_scripts_parse_back_full`: the literal layer (integers in every
-format, strings) and the layout layer (width only changes whitespace and trailing commas).
-Missing: the expression / statement grammar between the two layers and float literals, which are
-searched on the implementation; and the property is false at the glue sites (`unary_glue_minus`,
-`unary_glue_not`). -/
+format, strings), the layout layer (width only changes whitespace and trailing commas, for nested
+lists and for whole expressions) and the expression layer (printed tokens parse back to the same
+tree, printing again gives the same tokens).
+Missing: the statement / item / meta grammar around expressions, float literals and the lexing of
+the joined expression text (`LexOK`), which are searched / compared on the implementation; and the
+property is false at the glue sites (`unary_glue_minus`, `unary_glue_not`, `glue_sites_fail`). -/
 theorem printed_scripts_parse_back_partial :
     (∀ f v, evalLiteral (printInt f v) = .int v) ∧
     (∀ s, lex (escapeString s) = ([.str (escapeString s)], .eof) ∧ parseStringLiteral (escapeString s) = .ok s) ∧
-    (∀ w d, ess (renderPieces w d) = d.toks) :=
-  ⟨int_print_parse, string_print_lex_parse, layout_tokens⟩
+    (∀ w d, ess (renderPieces w d) = d.toks) ∧
+    (∀ e, NoGlue e = true → parseExpr (printExpr e) = some (norm e)) ∧
+    (∀ e, NoNegLit e = true → HintFree e = true → printExpr (norm e) = printExpr e) ∧
+    (∀ w e, commaTok (ess (renderExprPieces w e)) = tokTexts (printExpr e)) :=
+  ⟨int_print_parse, string_print_lex_parse, layout_tokens, expr_print_parse, expr_print_idempotent,
+    expr_layout_printExpr⟩
 
 end TruthModel.C08
